@@ -5,7 +5,20 @@ once; success effects are applied at most once.
 
 Model: `Model/Attest.lean` (`verifyAgainstTx`, `attest`, `step`, `run`) on top of
 `Model/SignBytes.lean` and `Model/Abi.lean`; encoder facts from `Props/Abi.lean`
-(`calldata_injective`), field-level facts from `Props/C05.lean`.
+(`calldata_injective`, `encode_prefix_free`), field-level facts from `Props/C05.lean`.
+
+Reading guide.
+* `ExactFor m data` is the specification "`data` is the bridge-contract encoding of the stored
+  message `m`"; `Action.mustCarry` is the hand-written list of what that encoding carries — the id
+  in it is the QUEUE id of the message (`QMsg.id`), the valset id the one the snapshot effect is
+  keyed by.
+* Histories: `run {} ops`.  The two logs `St.accepted` / `St.effects` are NOT trusted: the
+  theorems `accepted_log_is_history` / `effect_log_is_history` prove that they are functions of the
+  history (an entry ⇔ an accepting attestation step at some point `ops = pre ++ op :: post`), and the
+  at-most-once / single-use theorems are stated on the history itself (`Accepts (run {} pre) op id p`).
+* External ASSUMPTIONS (named in the statements that need them): `NoCollOn hp evs` — the proof hash
+  (sha256) does not collide on the proofs submitted for one message; `QMsg.Wf` / `OpsWf` — the ranges
+  of the Go types (uint64 ids and powers, 20-byte addresses, lengths below 2^256).
 -/
 import PalomaModel.Model.Attest
 import PalomaModel.Props.C05
@@ -14,12 +27,38 @@ import PalomaModel.Props.C04
 namespace Paloma.Attest
 open Paloma.Abi Paloma.SignBytes
 
-/-- `data` is the call data `VerifyAgainstTX` computes for `m` with a non-empty prefix of the
-collected signatures (for a compass upload: bytecode followed by the constructor input). -/
+/-! ## specification vocabulary -/
+
+/-- `data` is the call data `VerifyAgainstTX` computes for the stored message `m` — with the QUEUE
+id `m.id` as message id — under a non-empty prefix of the collected signatures (for a compass
+upload: bytecode followed by the constructor input). -/
 def ExactFor (m : QMsg) (data : Bytes) : Prop :=
   (isUp m.action = true ∧ data = upData m.action) ∨
-  (isUp m.action = false ∧ ∃ d i, m.action.delivered = some d ∧ 1 ≤ i ∧ i ≤ m.sigs.length ∧
+  (isUp m.action = false ∧ ∃ d i, m.action.delivered m.id = some d ∧ 1 ≤ i ∧ i ≤ m.sigs.length ∧
       data = calldata d.1 d.2.1 d.2.2 (consensusV m.valset (m.sigs.take i)))
+
+/-- HAND-WRITTEN list of what the property says the call data of the message stored under queue
+id `id` must carry after the consensus tuple: the method and, in the order of the compass ABI,
+action arguments, fees and fee payer, MESSAGE ID (`id`, the key of `St.accepted` / `Effect.msg`),
+deadline, relayer, elected estimate; for an update-valset the new validator set with the snapshot
+id `vid` that `Effect.snapshotLive` is keyed by. -/
+def Action.mustCarry (a : Action) (id : Nat) : Option (Bytes × List V) :=
+  match a with
+  | .uv f vid =>
+    some (selUpdateValsetD,
+      [.seq [words f.validators, words f.powers, .word (castI64 vid)], .word f.relayer, .word f.estimate])
+  | .slc f =>
+    some (selSubmitLogicCallD,
+      [callV (f.contract, f.payload), feeV (feesOrDefault f.fees) f.sender, .word (castI64 id),
+       .word f.deadline, .word f.relayer])
+  | .usc f _ =>
+    some (selDeployContractD,
+      [.word f.deployer, .bytes f.bytecode, feeV (feesOrDefault f.fees) f.sender, .word (castI64 id),
+       .word f.deadline, .word f.relayer])
+  | .ch f _ =>
+    some (selCompassUpdateBatchD,
+      [.seq (f.calls.map callV), .word f.deadline, .word f.estimate, .word f.relayer])
+  | .up _ _ _ => none
 
 /-- one success effect per (message, kind) -/
 def Effect.key : Effect → Nat × Nat
@@ -28,6 +67,63 @@ def Effect.key : Effect → Nat × Nat
   | .activated m _ => (m, 2)
   | .handoverScheduled m _ => (m, 3)
   | .userActive m _ => (m, 4)
+
+/-- the attestation attempt an op of a history makes: message id and the winner of the vote -/
+def Op.attempt : Op → Option (Nat × Winner)
+  | .attest id w => some (id, w)
+  | .attestEv id snap evs => some (id, winnerOf snap evs)
+  | _ => none
+
+/-- the op `op`, executed in state `s`, is an ACCEPTING attestation: it presents the transaction
+proof `p` for message `id` and the router answers `ok`.  (Defined from the executable `attest`, no
+log involved.) -/
+def Accepts (s : St) (op : Op) (id : Nat) (p : TxProof) : Prop :=
+  op.attempt = some (id, .tx p) ∧ (attest s id (.tx p)).2 = .ok
+
+/-- ranges of the Go values inside a valset and the collected signatures -/
+structure ConsWf (vs : GoValset) (sd : List SignData) : Prop where
+  nvals : vs.validators.length < W256
+  npows : vs.powers.length < W256
+  pows : ∀ p ∈ vs.powers, p < U64
+  vid : vs.valsetId < U64
+  sigs : ∀ s ∈ sd, s.v < W256 ∧ s.r < W256 ∧ s.s < W256
+
+def Action.wf (a : Action) : Bool :=
+  match a with
+  | .uv f vid => UV.wf f && decide (vid < U64)
+  | .slc f => SLC.wf f
+  | .usc f _ => USC.wf f
+  | .ch f _ => CH.wf f
+  | .up _ _ _ => true
+
+/-- ASSUMPTION (Go types): the ranges of the values of a stored message — `uint64` id, valset id,
+powers and fees, 20-byte addresses, 32-byte words, byte-string and list lengths below 2^256.
+`Props/C05.lean` (`go_uv_wf` … `go_ch_wf`) derives the action part from the Go-level message. -/
+structure QMsg.Wf (m : QMsg) : Prop where
+  id : m.id < U64
+  action : m.action.wf = true
+  cons : ConsWf m.valset m.sigs
+
+/-- the same for the inputs of a history -/
+def Op.Wf : Op → Prop
+  | .enqueue a vs sigs => a.wf = true ∧ ConsWf vs sigs
+  | .update m => m.Wf
+  | _ => True
+
+def OpsWf (ops : List Op) : Prop := ∀ op ∈ ops, op.Wf
+
+/-- ASSUMPTION (sha256): the proof hash `hp` does not collide on the proofs that were submitted as
+evidence for this message — pointwise, on exactly these pre-images. -/
+def NoCollOn (hp : ProofV → Nat) (evs : List EvidenceV) : Prop :=
+  ∀ a ∈ evs.map (·.2), ∀ b ∈ evs.map (·.2), hp a = hp b → a = b
+
+/-- the validators whose evidence is byte-identical to `P` -/
+def groupFor (evs : List EvidenceV) (P : ProofV) : List Nat :=
+  (evs.filter fun e => decide (e.2 = P)).map (·.1)
+
+/-- the validators whose evidence has the hash `h` (what the Go map groups) -/
+def groupForH (hp : ProofV → Nat) (evs : List EvidenceV) (h : Nat) : List Nat :=
+  (evs.filter fun e => hp e.2 == h).map (·.1)
 
 /-! ## helper lemmas -/
 section Lemmas
@@ -354,15 +450,8 @@ theorem run_inv : ∀ (ops : List Op) (s : St), Inv s → Inv (run s ops)
   | [], _, hi => hi
   | op :: ops, s, hi => run_inv ops (step s op) (step_inv s op hi)
 
-/-! ### typing of the consensus tuple -/
 
-/-- ranges of the Go values inside a valset and the collected signatures -/
-structure ConsWf (vs : GoValset) (sd : List SignData) : Prop where
-  nvals : vs.validators.length < W256
-  npows : vs.powers.length < W256
-  pows : ∀ p ∈ vs.powers, p < U64
-  vid : vs.valsetId < U64
-  sigs : ∀ s ∈ sd, s.v < W256 ∧ s.r < W256 ∧ s.s < W256
+/-! ### typing of the consensus tuple -/
 
 theorem lookupSig_mem (sd : List SignData) (key : Bytes) :
     ∀ s, lookupSig sd key = some s → s ∈ sd := by
@@ -413,6 +502,54 @@ theorem consWf_take (vs : GoValset) (sd : List SignData) (h : ConsWf vs sd) (i :
     ConsWf vs (sd.take i) :=
   ⟨h.nvals, h.npows, h.pows, h.vid, fun s hs => h.sigs s (List.mem_of_mem_take hs)⟩
 
+
+/-! ### signatures inside the consensus tuple -/
+
+/-- `signatureMap[validator]`: a hit is a collected signature stored under exactly that key -/
+theorem lookupSig_some (sd : List SignData) (key : Bytes) (s : SignData)
+    (h : lookupSig sd key = some s) : s ∈ sd ∧ s.ext = key := by
+  unfold lookupSig at h
+  suffices hh : ∀ (l : List SignData) (acc : Option SignData) (s : SignData),
+      l.foldl (fun acc s => if s.ext == key then some s else acc) acc = some s →
+        (s ∈ l ∧ s.ext = key) ∨ acc = some s by
+    rcases hh sd none s h with h | h
+    · exact h
+    · cases h
+  intro l
+  induction l with
+  | nil => intro acc s h; exact .inr h
+  | cons x l ih =>
+    intro acc s h
+    simp only [List.foldl_cons] at h
+    rcases ih _ s h with h1 | h1
+    · exact .inl ⟨List.mem_cons_of_mem _ h1.1, h1.2⟩
+    · split at h1
+      · rename_i hx
+        injection h1 with h1
+        subst h1
+        exact .inl ⟨List.mem_cons_self, by simpa using hx⟩
+      · exact .inr h1
+
+/-- … and a miss means that NO collected signature is stored under that key -/
+theorem lookupSig_none (sd : List SignData) (key : Bytes) :
+    lookupSig sd key = none ↔ ∀ s ∈ sd, s.ext ≠ key := by
+  unfold lookupSig
+  suffices hh : ∀ (l : List SignData) (acc : Option SignData),
+      l.foldl (fun acc s => if s.ext == key then some s else acc) acc = none ↔
+        (acc = none ∧ ∀ s ∈ l, s.ext ≠ key) by
+    rw [hh sd none]
+    simp
+  intro l
+  induction l with
+  | nil => intro acc; simp
+  | cons x l ih =>
+    intro acc
+    simp only [List.foldl_cons]
+    rw [ih]
+    by_cases hx : x.ext = key
+    · simp [hx]
+    · simp [hx]
+
 /-! ### evidence of several validators -/
 
 theorem firstIdx_getD (l : List ProofV) (a d : ProofV) (h : a ∈ l) : l.getD (firstIdx l a) d = a := by
@@ -443,40 +580,41 @@ theorem mem_hashes : ∀ (evs : List Libcons.Evidence) (h : Nat), h ∈ Libcons.
     · obtain ⟨e', he', h'⟩ := mem_hashes es h (List.mem_filter.1 hm).1
       exact ⟨e', List.mem_cons_of_mem _ he', h'⟩
 
-/-- the validators whose evidence is byte-identical to `P` -/
-def groupFor (evs : List EvidenceV) (P : ProofV) : List Nat :=
-  (evs.filter fun e => decide (e.2 = P)).map (·.1)
-
-theorem group_eq (evs : List EvidenceV) (P : ProofV) (hP : P ∈ evs.map (·.2)) :
-    Libcons.groupOf (toLibcons evs) (firstIdx (evs.map (·.2)) P) = groupFor evs P := by
-  unfold Libcons.groupOf toLibcons groupFor
+/-- the Libcons group of a hash is the set of validators whose proof has that hash -/
+theorem groupOf_toLibconsH (hp : ProofV → Nat) (evs : List EvidenceV) (h : Nat) :
+    Libcons.groupOf (toLibconsH hp evs) h = groupForH hp evs h := by
+  unfold Libcons.groupOf toLibconsH groupForH
   rw [List.filter_map, List.map_map]
-  have : (evs.filter ((fun e : Libcons.Evidence => e.2 == firstIdx (evs.map (·.2)) P) ∘
-      fun e : EvidenceV => (e.1, firstIdx (evs.map (·.2)) e.2))) = evs.filter fun e => decide (e.2 = P) := by
-    apply List.filter_congr
-    intro e he
-    have hm : e.2 ∈ evs.map (·.2) := List.mem_map.2 ⟨e, he, rfl⟩
-    simp only [Function.comp]
-    by_cases hc : e.2 = P
-    · simp [hc]
-    · have : firstIdx (evs.map (·.2)) e.2 ≠ firstIdx (evs.map (·.2)) P :=
-        fun h => hc (firstIdx_inj _ _ _ hm hP h)
-      simp [hc, this]
-  rw [this]
   rfl
 
-/-- what `VerifyEvidence` guarantees about its winner -/
-theorem winnerOf_spec (snap : Libcons.Snapshot) (evs : List EvidenceV) (h : winnerOf snap evs ≠ .none) :
-    ∃ P, P ∈ evs.map (·.2) ∧ winnerOf snap evs = P.toWinner ∧
-      (Libcons.tally snap (groupFor evs P)).consensus = true := by
-  unfold winnerOf at h
+/-- without a collision on the submitted proofs the hash group of `hp P` is the group of the
+    evidence that is byte-identical to `P` -/
+theorem groupForH_eq (hp : ProofV → Nat) (evs : List EvidenceV) (hnc : NoCollOn hp evs) (P : ProofV)
+    (hP : P ∈ evs.map (·.2)) : groupForH hp evs (hp P) = groupFor evs P := by
+  unfold groupForH groupFor
+  congr 1
+  apply List.filter_congr
+  intro e he
+  have hm : e.2 ∈ evs.map (·.2) := List.mem_map.2 ⟨e, he, rfl⟩
+  by_cases hc : e.2 = P
+  · simp [hc]
+  · have : hp e.2 ≠ hp P := fun h => hc (hnc _ hm _ hP h)
+    simp [hc, this]
+
+/-- what `VerifyEvidence` guarantees about its winner, for ANY proof hash: it is the first stored
+    proof of a HASH group that holds 2/3 of the shares -/
+theorem winnerOfH_spec_hash (hp : ProofV → Nat) (snap : Libcons.Snapshot) (evs : List EvidenceV)
+    (h : winnerOfH hp snap evs ≠ .none) :
+    ∃ P, P ∈ evs.map (·.2) ∧ winnerOfH hp snap evs = P.toWinner ∧
+      (Libcons.tally snap (groupForH hp evs (hp P))).consensus = true := by
+  unfold winnerOfH at h
   split at h
   · exact absurd rfl h
   · rename_i ws hv
     split at h
     · exact absurd rfl h
     · rename_i hd tl
-      have hw : hd ∈ Libcons.winners snap (toLibcons evs) := by
+      have hw : hd ∈ Libcons.winners snap (toLibconsH hp evs) := by
         unfold Libcons.verifyEvidence at hv
         split at hv
         · cases hv
@@ -486,19 +624,35 @@ theorem winnerOf_spec (snap : Libcons.Snapshot) (evs : List EvidenceV) (h : winn
             rw [hv]
             exact List.mem_cons_self
       have hc := Libcons.mem_winners hw
-      obtain ⟨e, he, heq⟩ := mem_hashes _ _ (List.mem_filter.1 hw).1
-      unfold toLibcons at he
-      rw [List.mem_map] at he
-      obtain ⟨e0, he0, rfl⟩ := he
-      have heq : firstIdx (evs.map (·.2)) e0.2 = hd := heq
-      have hm : e0.2 ∈ evs.map (·.2) := List.mem_map.2 ⟨e0, he0, rfl⟩
-      have hwin : winnerOf snap evs = ((evs.map (·.2)).getD hd (ProofV.other 0)).toWinner := by
-        unfold winnerOf
-        rw [hv]
-      refine ⟨e0.2, hm, ?_, ?_⟩
-      · rw [hwin, ← heq, firstIdx_getD _ _ _ hm]
-      · rw [← group_eq evs e0.2 hm, heq]
+      split at h
+      · rename_i P hg
+        unfold groupProof at hg
+        rw [Option.map_eq_some_iff] at hg
+        obtain ⟨e, hfind, rfl⟩ := hg
+        have hmem := List.mem_of_find?_eq_some hfind
+        have hh : hp e.2 = hd := by simpa using List.find?_some hfind
+        have hwin : winnerOfH hp snap evs = e.2.toWinner := by
+          unfold winnerOfH
+          rw [hv]
+          simp only
+          unfold groupProof
+          rw [hfind]
+          rfl
+        refine ⟨e.2, List.mem_map.2 ⟨e, hmem, rfl⟩, hwin, ?_⟩
+        rw [hh, ← groupOf_toLibconsH]
         exact hc
+      · exact absurd rfl h
+
+/-- under the no-collision ASSUMPTION that group is the group of byte-identical evidence -/
+theorem winnerOfH_spec (hp : ProofV → Nat) (snap : Libcons.Snapshot) (evs : List EvidenceV)
+    (hnc : NoCollOn hp evs) (h : winnerOfH hp snap evs ≠ .none) :
+    ∃ P, P ∈ evs.map (·.2) ∧ winnerOfH hp snap evs = P.toWinner ∧
+      (Libcons.tally snap (groupFor evs P)).consensus = true := by
+  obtain ⟨P, hP, hw, hc⟩ := winnerOfH_spec_hash hp snap evs h
+  exact ⟨P, hP, hw, by rw [← groupForH_eq hp evs hnc P hP]; exact hc⟩
+
+theorem idealHash_noCollOn (evs : List EvidenceV) : NoCollOn (idealHash evs) evs :=
+  fun a ha b hb h => firstIdx_inj _ a b ha hb h
 
 /-! ### the processed set only grows -/
 
@@ -533,26 +687,411 @@ theorem run_processed_mono : ∀ (ops : List Op) (s : St) (h : Nat), h ∈ s.pro
 
 theorem upData_up (bc ctor : Bytes) (cid : Nat) : upData (.up bc ctor cid) = bc ++ ctor := rfl
 
+
+/-! ### the hand-written content list is what is packed -/
+
+theorem delivered_mustCarry (a : Action) (id : Nat) :
+    (a.delivered id).map (fun d => (d.1, d.2.2)) = a.mustCarry id := by
+  cases a <;> rfl
+
+theorem delivered_sel_length (a : Action) (id : Nat) (d : Bytes × List Ty × List V)
+    (h : a.delivered id = some d) : d.1.length = 4 := by
+  cases a <;> simp only [Action.delivered, Option.some.injEq, reduceCtorEq] at h <;> subst h <;> rfl
+
+theorem delivered_isSome (a : Action) (id : Nat) (h : isUp a = false) : ∃ d, a.delivered id = some d := by
+  cases a <;> simp [isUp, Action.delivered] at h ⊢
+
+/-! ### histories: splitting, logs as functions of the history -/
+
+theorem run_append : ∀ (a b : List Op) (s : St), run s (a ++ b) = run (run s a) b
+  | [], _, _ => rfl
+  | op :: a, b, s => run_append a b (step s op)
+
+theorem split_trichotomy {α : Type} : ∀ {pre1 pre2 post1 post2 : List α} {x1 x2 : α},
+    pre1 ++ x1 :: post1 = pre2 ++ x2 :: post2 →
+    (pre1 = pre2 ∧ x1 = x2 ∧ post1 = post2) ∨ (∃ mid, pre2 = pre1 ++ x1 :: mid) ∨
+      (∃ mid, pre1 = pre2 ++ x2 :: mid)
+  | [], [], _, _, _, _, h => by
+    simp only [List.nil_append, List.cons.injEq] at h
+    exact .inl ⟨rfl, h.1, h.2⟩
+  | [], y :: pre2, _, _, _, _, h => by
+    simp only [List.nil_append, List.cons_append, List.cons.injEq] at h
+    exact .inr (.inl ⟨pre2, by rw [h.1]; rfl⟩)
+  | y :: pre1, [], _, _, _, _, h => by
+    simp only [List.nil_append, List.cons_append, List.cons.injEq] at h
+    exact .inr (.inr ⟨pre1, by rw [h.1]; rfl⟩)
+  | y :: pre1, z :: pre2, _, _, _, _, h => by
+    simp only [List.cons_append, List.cons.injEq] at h
+    rcases split_trichotomy h.2 with ⟨h1, h2, h3⟩ | ⟨mid, hm⟩ | ⟨mid, hm⟩
+    · exact .inl ⟨by rw [h.1, h1], h2, h3⟩
+    · exact .inr (.inl ⟨mid, by rw [h.1, hm]; rfl⟩)
+    · exact .inr (.inr ⟨mid, by rw [h.1, hm]; rfl⟩)
+
+/-- a list-valued projection of the state whose growth per step is characterised by `P` is, after a
+    history, exactly the old content plus the `P`-events of the history -/
+theorem run_log_iff {α : Type} (proj : St → List α) (P : St → Op → α → Prop)
+    (hstep : ∀ s op a, a ∈ proj (step s op) ↔ a ∈ proj s ∨ P s op a) :
+    ∀ (ops : List Op) (s : St) (a : α), a ∈ proj (run s ops) ↔
+      a ∈ proj s ∨ ∃ pre op post, ops = pre ++ op :: post ∧ P (run s pre) op a
+  | [], s, a => by
+    simp only [run]
+    constructor
+    · exact fun h => .inl h
+    · rintro (h | ⟨pre, op, post, h, -⟩)
+      · exact h
+      · cases pre <;> cases h
+  | op :: ops, s, a => by
+    simp only [run]
+    rw [run_log_iff proj P hstep ops (step s op) a, hstep]
+    constructor
+    · rintro ((h | h) | ⟨pre, op', post, h, hp⟩)
+      · exact .inl h
+      · exact .inr ⟨[], op, ops, rfl, h⟩
+      · exact .inr ⟨op :: pre, op', post, by rw [h]; rfl, hp⟩
+    · rintro (h | ⟨pre, op', post, h, hp⟩)
+      · exact .inl (.inl h)
+      · cases pre with
+        | nil =>
+          simp only [List.nil_append, List.cons.injEq] at h
+          obtain ⟨rfl, rfl⟩ := h
+          exact .inl (.inr hp)
+        | cons x pre =>
+          simp only [List.cons_append, List.cons.injEq] at h
+          obtain ⟨rfl, rfl⟩ := h
+          exact .inr ⟨pre, op', post, rfl, hp⟩
+
+theorem attempt_step (s : St) (op : Op) (id : Nat) (w : Winner) (h : op.attempt = some (id, w)) :
+    step s op = (attest s id w).1 := by
+  cases op with
+  | attest id' w' =>
+    simp only [Op.attempt, Option.some.injEq, Prod.mk.injEq] at h
+    obtain ⟨rfl, rfl⟩ := h
+    rfl
+  | attestEv id' snap evs =>
+    simp only [Op.attempt, Option.some.injEq, Prod.mk.injEq] at h
+    obtain ⟨rfl, rfl⟩ := h
+    rfl
+  | enqueue _ _ _ => cases h
+  | update _ => cases h
+  | remove _ => cases h
+  | setChain _ => cases h
+
+/-- ops that are not attestation attempts touch neither the logs nor the processed set, and the
+    keeper state only when they are the environment op itself -/
+theorem no_attempt_step (s : St) (op : Op) (h : op.attempt = none) :
+    (step s op).accepted = s.accepted ∧ (step s op).effects = s.effects ∧
+    (step s op).processed = s.processed ∧ ((step s op).chain = s.chain ∨ ∃ c, op = .setChain c) := by
+  cases op with
+  | attest id' w' => cases h
+  | attestEv id' snap evs => cases h
+  | enqueue _ _ _ => exact ⟨rfl, rfl, rfl, .inl rfl⟩
+  | update m =>
+    simp only [step]
+    split
+    · exact ⟨rfl, rfl, rfl, .inl rfl⟩
+    · exact ⟨rfl, rfl, rfl, .inl rfl⟩
+  | remove _ => exact ⟨rfl, rfl, rfl, .inl rfl⟩
+  | setChain c => exact ⟨rfl, rfl, rfl, .inr ⟨c, rfl⟩⟩
+
+theorem mem_attest_accepted (s : St) (id : Nat) (w : Winner) (a : Nat × Nat) :
+    a ∈ (attest s id w).1.accepted ↔
+      a ∈ s.accepted ∨ ∃ p, w = .tx p ∧ (attest s id w).2 = .ok ∧ a = (id, p.hash) := by
+  have ho := attest_outcome s id w
+  generalize attest s id w = r at ho
+  cases ho with
+  | unchanged r hr =>
+    constructor
+    · exact fun h => .inl h
+    · rintro (h | ⟨p, -, h, -⟩)
+      · exact h
+      · exact absurd h hr.1
+  | errorHandled =>
+    constructor
+    · exact fun h => .inl h
+    · rintro (h | ⟨p, -, h, -⟩)
+      · exact h
+      · cases h
+  | rejected p r hw hr =>
+    constructor
+    · exact fun h => .inl h
+    · rintro (h | ⟨p, -, h, -⟩)
+      · exact h
+      · rcases hr with rfl | rfl <;> cases h
+  | accepted m p ce hm hw hrc hproc hv hs =>
+    subst hw
+    simp only [List.mem_cons]
+    constructor
+    · rintro (h | h)
+      · exact .inr ⟨p, rfl, trivial, h⟩
+      · exact .inl h
+    · rintro (h | ⟨p', hp, -, h⟩)
+      · exact .inr h
+      · injection hp with hp
+        subst hp
+        exact .inl h
+
+theorem mem_attest_effects (s : St) (id : Nat) (w : Winner) (e : Effect) :
+    e ∈ (attest s id w).1.effects ↔
+      e ∈ s.effects ∨ ∃ m p ce, w = .tx p ∧ (attest s id w).2 = .ok ∧ findMsg s.queue id = some m ∧
+        applySuccess s.chain m p = some ce ∧ e ∈ ce.2 := by
+  have ho := attest_outcome s id w
+  generalize attest s id w = r at ho
+  cases ho with
+  | unchanged r hr =>
+    constructor
+    · exact fun h => .inl h
+    · rintro (h | ⟨_, _, _, -, h, -⟩)
+      · exact h
+      · exact absurd h hr.1
+  | errorHandled =>
+    constructor
+    · exact fun h => .inl h
+    · rintro (h | ⟨_, _, _, -, h, -⟩)
+      · exact h
+      · cases h
+  | rejected p r hw hr =>
+    constructor
+    · exact fun h => .inl h
+    · rintro (h | ⟨_, _, _, -, h, -⟩)
+      · exact h
+      · rcases hr with rfl | rfl <;> cases h
+  | accepted m p ce hm hw hrc hproc hv hs =>
+    subst hw
+    simp only [List.mem_append]
+    constructor
+    · rintro (h | h)
+      · exact .inr ⟨m, p, ce, rfl, trivial, hm, hs, h⟩
+      · exact .inl h
+    · rintro (h | ⟨m', p', ce', hp, -, hm', hs', h⟩)
+      · exact .inr h
+      · injection hp with hp
+        subst hp
+        rw [hm] at hm'
+        injection hm' with hm'
+        subst hm'
+        rw [hs] at hs'
+        injection hs' with hs'
+        subst hs'
+        exact .inl h
+
+theorem mem_attest_processed (s : St) (id : Nat) (w : Winner) (h : Nat) :
+    h ∈ (attest s id w).1.processed ↔
+      h ∈ s.processed ∨ ∃ p, w = .tx p ∧ p.hash = h ∧
+        ((attest s id w).2 = .ok ∨ (attest s id w).2 = .txFailed ∨ (attest s id w).2 = .notVerified) := by
+  have ho := attest_outcome s id w
+  generalize attest s id w = r at ho
+  cases ho with
+  | unchanged r hr =>
+    constructor
+    · exact fun h => .inl h
+    · rintro (h | ⟨_, -, -, h | h | h⟩)
+      · exact h
+      · exact absurd h hr.1
+      · exact absurd h hr.2.1
+      · exact absurd h hr.2.2
+  | errorHandled =>
+    constructor
+    · exact fun h => .inl h
+    · rintro (h | ⟨_, -, -, h | h | h⟩)
+      · exact h
+      · cases h
+      · cases h
+      · cases h
+  | rejected p r hw hr =>
+    subst hw
+    simp only [commitReject, List.mem_cons]
+    constructor
+    · rintro (h | h)
+      · exact .inr ⟨p, rfl, h.symm, .inr hr⟩
+      · exact .inl h
+    · rintro (h | ⟨p', hp, h, -⟩)
+      · exact .inr h
+      · injection hp with hp
+        subst hp
+        exact .inl h.symm
+  | accepted m p ce hm hw hrc hproc hv hs =>
+    subst hw
+    simp only [List.mem_cons]
+    constructor
+    · rintro (h | h)
+      · exact .inr ⟨p, rfl, h.symm, .inl trivial⟩
+      · exact .inl h
+    · rintro (h | ⟨p', hp, h, -⟩)
+      · exact .inr h
+      · injection hp with hp
+        subst hp
+        exact .inl h.symm
+
+theorem mem_step_accepted (s : St) (op : Op) (a : Nat × Nat) :
+    a ∈ (step s op).accepted ↔ a ∈ s.accepted ∨ ∃ p, Accepts s op a.1 p ∧ p.hash = a.2 := by
+  cases hat : op.attempt with
+  | none =>
+    rw [(no_attempt_step s op hat).1]
+    constructor
+    · exact fun h => .inl h
+    · rintro (h | ⟨p, ⟨h, -⟩, -⟩)
+      · exact h
+      · rw [hat] at h; cases h
+  | some iw =>
+    obtain ⟨id, w⟩ := iw
+    rw [attempt_step s op id w hat, mem_attest_accepted]
+    constructor
+    · rintro (h | ⟨p, hw, hok, ha⟩)
+      · exact .inl h
+      · subst hw
+        subst ha
+        exact .inr ⟨p, ⟨hat, hok⟩, rfl⟩
+    · rintro (h | ⟨p, ⟨h1, h2⟩, h3⟩)
+      · exact .inl h
+      · rw [hat] at h1
+        simp only [Option.some.injEq, Prod.mk.injEq] at h1
+        obtain ⟨rfl, rfl⟩ := h1
+        exact .inr ⟨p, rfl, h2, by rw [h3]⟩
+
+theorem mem_step_effects (s : St) (op : Op) (e : Effect) :
+    e ∈ (step s op).effects ↔ e ∈ s.effects ∨ ∃ id m p ce, Accepts s op id p ∧
+      findMsg s.queue id = some m ∧ applySuccess s.chain m p = some ce ∧ e ∈ ce.2 := by
+  cases hat : op.attempt with
+  | none =>
+    rw [(no_attempt_step s op hat).2.1]
+    constructor
+    · exact fun h => .inl h
+    · rintro (h | ⟨_, _, _, _, ⟨h, -⟩, -⟩)
+      · exact h
+      · rw [hat] at h; cases h
+  | some iw =>
+    obtain ⟨id, w⟩ := iw
+    rw [attempt_step s op id w hat, mem_attest_effects]
+    constructor
+    · rintro (h | ⟨m, p, ce, hw, hok, hm, hs, he⟩)
+      · exact .inl h
+      · subst hw
+        exact .inr ⟨id, m, p, ce, ⟨hat, hok⟩, hm, hs, he⟩
+    · rintro (h | ⟨id', m, p, ce, ⟨h1, h2⟩, hm, hs, he⟩)
+      · exact .inl h
+      · rw [hat] at h1
+        simp only [Option.some.injEq, Prod.mk.injEq] at h1
+        obtain ⟨rfl, rfl⟩ := h1
+        exact .inr ⟨m, p, ce, rfl, h2, hm, hs, he⟩
+
+theorem mem_run_accepted_of_mem (ops : List Op) (s : St) (a : Nat × Nat) (h : a ∈ s.accepted) :
+    a ∈ (run s ops).accepted :=
+  (run_log_iff (·.accepted) (fun s op a => ∃ p, Accepts s op a.1 p ∧ p.hash = a.2)
+    mem_step_accepted ops s a).2 (.inl h)
+
+/-- an accepting step logs the pair, spends the transaction and removes the message -/
+theorem accepts_step (s : St) (op : Op) (id : Nat) (p : TxProof) (h : Accepts s op id p) :
+    (id, p.hash) ∈ (step s op).accepted ∧ p.hash ∈ (step s op).processed := by
+  refine ⟨(mem_step_accepted s op (id, p.hash)).2 (.inr ⟨p, h, rfl⟩), ?_⟩
+  rw [attempt_step s op id (.tx p) h.1, mem_attest_processed]
+  exact .inr ⟨p, rfl, rfl, .inl h.2⟩
+
+/-! ### ranges are preserved along well-formed histories -/
+
+theorem attest_queue_sublist (s : St) (id : Nat) (w : Winner) :
+    (attest s id w).1.queue.Sublist s.queue ∧ (attest s id w).1.nextId = s.nextId := by
+  have ho := attest_outcome s id w
+  generalize attest s id w = r at ho
+  cases ho with
+  | unchanged r hr => exact ⟨List.Sublist.refl _, rfl⟩
+  | errorHandled => exact ⟨removeMsg_sublist _ _, rfl⟩
+  | rejected p r hw hr => exact ⟨removeMsg_sublist _ _, rfl⟩
+  | accepted m p ce hm hw hrc hproc hv hs =>
+    refine ⟨List.Sublist.trans (removeMsg_sublist _ _) ?_, rfl⟩
+    split
+    · exact removeOlderUv_sublist _ _
+    · exact List.Sublist.refl _
+
+theorem step_queue_wf (s : St) (op : Op) (hq : ∀ m ∈ s.queue, m.Wf) (hop : op.Wf)
+    (hn : s.nextId + 1 < U64) :
+    (∀ m ∈ (step s op).queue, m.Wf) ∧ (step s op).nextId ≤ s.nextId + 1 := by
+  cases op with
+  | enqueue a vs sigs =>
+    refine ⟨?_, Nat.le_refl _⟩
+    intro m hm
+    simp only [step, List.mem_append, List.mem_singleton] at hm
+    rcases hm with hm | rfl
+    · exact hq m hm
+    · exact ⟨hn, hop.1, hop.2⟩
+  | update m =>
+    simp only [step]
+    split
+    · refine ⟨?_, Nat.le_succ _⟩
+      intro x hx
+      simp only [List.mem_map] at hx
+      obtain ⟨y, hy, rfl⟩ := hx
+      split
+      · exact hop
+      · exact hq y hy
+    · exact ⟨hq, Nat.le_succ _⟩
+  | remove id => exact ⟨fun m hm => hq m ((removeMsg_sublist _ _).subset hm), Nat.le_succ _⟩
+  | setChain c => exact ⟨hq, Nat.le_succ _⟩
+  | attest id w =>
+    have := attest_queue_sublist s id w
+    exact ⟨fun m hm => hq m (this.1.subset hm), by show (attest s id w).1.nextId ≤ _; rw [this.2]; omega⟩
+  | attestEv id snap evs =>
+    have := attest_queue_sublist s id (winnerOf snap evs)
+    exact ⟨fun m hm => hq m (this.1.subset hm),
+      by show (attest s id (winnerOf snap evs)).1.nextId ≤ _; rw [this.2]; omega⟩
+
+theorem run_queue_wf_aux : ∀ (ops : List Op) (s : St), (∀ m ∈ s.queue, m.Wf) → OpsWf ops →
+    s.nextId + ops.length < U64 → ∀ m ∈ (run s ops).queue, m.Wf
+  | [], _, hq, _, _ => hq
+  | op :: ops, s, hq, hops, hn => by
+    simp only [List.length_cons] at hn
+    have h1 := step_queue_wf s op hq (hops op List.mem_cons_self) (by omega)
+    exact run_queue_wf_aux ops (step s op) h1.1 (fun o ho => hops o (List.mem_cons_of_mem _ ho))
+      (by have := h1.2; omega)
+
+
+/-! ### `SetSmartContractAsActive` / deployment records -/
+
+/-- `SetSmartContractAsActive` in terms of the executable state -/
+theorem setActive_spec (c c' : Chain) (cid : Nat) (h : setActive c cid = some c') :
+    depStatus c cid = some .waiting ∧ depStatus c' cid = none ∧ cid ≤ c'.activeContract ∧
+    c.activeContract ≤ c'.activeContract ∧ c'.hasSnapshot = c.hasSnapshot := by
+  unfold setActive at h
+  split at h
+  · rename_i hw
+    injection h with h
+    subst h
+    refine ⟨hw, ?_, ?_, ?_, rfl⟩
+    · simp only [depStatus, delDep, Option.map_eq_none_iff, List.find?_eq_none]
+      intro x hx
+      simp only [List.mem_filter, bne_iff_ne, ne_eq] at hx
+      simpa using hx.2
+    · simp only [delDep]
+      split <;> omega
+    · simp only [delDep]
+      split <;> omega
+  · cases h
+
+theorem depStatus_setDep (c : Chain) (cid : Nat) (st : DepStatus) : depStatus (setDep c cid st) cid = some st := by
+  simp [depStatus, setDep]
+
 end Lemmas
 
 /-! ## Property theorems (C07) -/
 
+/-! ### 1. accepted ⇒ the call data is the encoding of exactly that stored message -/
+
 /-- **accept_implies_exact_calldata.** C07, first sentence: whenever the router accepts evidence for
 message `id` (result `ok`, the only result that applies success effects), the winner is a
 transaction proof whose call data equals the compass encoding of THAT stored message — action
-arguments, message id, deadline, fees, relayer, and the consensus tuple built from the selected
-valset and a NON-EMPTY prefix of the collected signatures (for a compass upload: bytecode followed
-by the constructor input). -/
+arguments, the queue id `id` itself as message id, deadline, fees, relayer, and the consensus tuple
+built from the selected valset and a NON-EMPTY prefix of the collected signatures (for a compass
+upload: bytecode followed by the constructor input). -/
 theorem accept_implies_exact_calldata (s : St) (id : Nat) (w : Winner)
     (h : (attest s id w).2 = .ok) :
-    ∃ m p, findMsg s.queue id = some m ∧ w = .tx p ∧ ExactFor m p.data := by
+    ∃ m p, findMsg s.queue id = some m ∧ m.id = id ∧ w = .tx p ∧ ExactFor m p.data := by
   have ho := attest_outcome s id w
   generalize attest s id w = r at ho h
   cases ho with
   | unchanged r hr => exact absurd h hr.1
   | errorHandled => cases h
   | rejected p r hw hr => rcases hr with rfl | rfl <;> cases h
-  | accepted m p ce hm hw hrc hproc hv hs => exact ⟨m, p, hm, hw, verify_ok_exact m p.data hv⟩
+  | accepted m p ce hm hw hrc hproc hv hs =>
+    exact ⟨m, p, hm, (findMsg_some hm).2, hw, verify_ok_exact m p.data hv⟩
 
 /-- **verify_ok_iff_exact.** `VerifyAgainstTX` succeeds exactly for the call data of the message
 under one of the non-empty signature prefixes (both directions; late signatures are tolerated,
@@ -561,6 +1100,24 @@ theorem verify_ok_iff_exact (m : QMsg) (data : Bytes) :
     verifyAgainstTx m data = .ok ↔ ExactFor m data :=
   ⟨verify_ok_exact m data, exact_verify_ok m data⟩
 
+/-- **accepted_calldata_content.** The content of an accepted ABI call, spelled out against the
+hand-written list `Action.mustCarry`: the method selector, then the ABI encoding of the consensus
+tuple of a non-empty signature prefix followed by exactly the listed values — in particular the
+message-id word is `castI64 m.id`, the id under which the message is stored, acceptances are logged
+and effects are tagged (`accept_implies_exact_calldata`: `m.id = id`), and the valset-id word of an
+update-valset is `castI64 vid` for the `vid` the snapshot effect is keyed by.  The free fields
+`SLCFields.id` / `USCFields.id` / `UVFields.valsetId` of the action play no role. -/
+theorem accepted_calldata_content (m : QMsg) (data : Bytes) (hu : isUp m.action = false)
+    (hv : verifyAgainstTx m data = .ok) :
+    ∃ d i, m.action.delivered m.id = some d ∧ m.action.mustCarry m.id = some (d.1, d.2.2) ∧
+      1 ≤ i ∧ i ≤ m.sigs.length ∧
+      data = d.1 ++ encodeArgs (consensusTy :: d.2.1) (consensusV m.valset (m.sigs.take i) :: d.2.2) := by
+  rcases verify_ok_exact m data hv with ⟨hu', -⟩ | ⟨-, d, i, hd, h1, h2, h3⟩
+  · rw [hu] at hu'; cases hu'
+  · refine ⟨d, i, hd, ?_, h1, h2, h3⟩
+    rw [← delivered_mustCarry, hd]
+    rfl
+
 /-- **exact_calldata_binds_values.** … "equals the bridge-contract encoding of that message": if
 the accepted call data is ALSO the encoding of some well-typed argument list `vals'` under some
 consensus tuple `c'` (same method), then `vals'` are exactly the message's delivered values and
@@ -568,7 +1125,7 @@ consensus tuple `c'` (same method), then `vals'` are exactly the message's deliv
 `Abi.calldata_injective`.)  So no other target, payload, fee, fee payer, id, deadline, relayer,
 valset or estimate can hide behind an accepted transaction. -/
 theorem exact_calldata_binds_values (m : QMsg) (data : Bytes) (d : Bytes × List Ty × List V)
-    (hd : m.action.delivered = some d) (hex : ExactFor m data)
+    (hd : m.action.delivered m.id = some d) (hex : ExactFor m data)
     (hcw : ConsWf m.valset m.sigs)
     (hty : ∀ c, hasType consensusTy c = true → hasTypeArgs (consensusTy :: d.2.1) (c :: d.2.2) = true)
     (c' : V) (vals' : List V) (ht' : hasTypeArgs (consensusTy :: d.2.1) (c' :: vals') = true)
@@ -633,6 +1190,283 @@ theorem ch_delivered_typed (f : CHFields) (hf : CH.wf f = true) (c : V)
     Bool.and_eq_true]
   exact ⟨h3, by omega, h4⟩
 
+/-- **delivered_typed.** The typing side condition for EVERY ABI action of a message whose values
+are in the ranges of their Go types (`QMsg.Wf`), with the queue id and the Go valset id substituted
+as `VerifyAgainstTX` does. -/
+theorem delivered_typed (m : QMsg) (hw : m.Wf) (d : Bytes × List Ty × List V)
+    (hd : m.action.delivered m.id = some d) (c : V) (hc : hasType consensusTy c = true) :
+    hasTypeArgs (consensusTy :: d.2.1) (c :: d.2.2) = true := by
+  have hid := castI64_lt hw.id
+  have ha := hw.action
+  cases hact : m.action with
+  | uv f vid =>
+    rw [hact] at hd ha
+    simp only [Action.delivered, Option.some.injEq] at hd
+    subst hd
+    simp only [Action.wf, Bool.and_eq_true, decide_eq_true_eq] at ha
+    refine uv_delivered_typed _ ?_ c hc
+    have h0 := ha.1
+    simp only [UV.wf, Bool.and_eq_true, decide_eq_true_eq] at h0 ⊢
+    obtain ⟨⟨⟨⟨⟨⟨⟨h1, h2⟩, h3⟩, h4⟩, -⟩, h6⟩, h7⟩, h8⟩ := h0
+    exact ⟨⟨⟨⟨⟨⟨⟨h1, h2⟩, h3⟩, h4⟩, castI64_lt ha.2⟩, h6⟩, h7⟩, h8⟩
+  | slc f =>
+    rw [hact] at hd ha
+    simp only [Action.delivered, Option.some.injEq] at hd
+    subst hd
+    refine slc_delivered_typed _ ?_ c hc
+    simp only [Action.wf] at ha
+    simp only [SLC.wf, Bool.and_eq_true, decide_eq_true_eq] at ha ⊢
+    obtain ⟨⟨⟨⟨⟨⟨⟨h1, h2⟩, h3⟩, h4⟩, -⟩, h6⟩, h7⟩, h8⟩ := ha
+    exact ⟨⟨⟨⟨⟨⟨⟨h1, h2⟩, h3⟩, h4⟩, hid⟩, h6⟩, h7⟩, h8⟩
+  | usc f cid =>
+    rw [hact] at hd ha
+    simp only [Action.delivered, Option.some.injEq] at hd
+    subst hd
+    refine usc_delivered_typed _ ?_ c hc
+    simp only [Action.wf] at ha
+    simp only [USC.wf, Bool.and_eq_true, decide_eq_true_eq] at ha ⊢
+    obtain ⟨⟨⟨⟨⟨⟨⟨h1, h2⟩, h3⟩, h4⟩, -⟩, h6⟩, h7⟩, h8⟩ := ha
+    exact ⟨⟨⟨⟨⟨⟨⟨h1, h2⟩, h3⟩, h4⟩, hid⟩, h6⟩, h7⟩, h8⟩
+  | ch f cid =>
+    rw [hact] at hd ha
+    simp only [Action.delivered, Option.some.injEq] at hd
+    subst hd
+    exact ch_delivered_typed f ha c hc
+  | up bc ctor cid =>
+    rw [hact] at hd
+    cases hd
+
+/-- **accepted_calldata_decodes_to_the_message.** The decoding direction, with no side condition
+left open: for a message in the Go ranges, if accepted call data is the packing (same method) of ANY
+well-typed consensus tuple `c'` and argument list `vals'`, then `vals'` is the hand-written content
+list of THIS message under its queue id, and `c'` is the consensus of a non-empty prefix of its
+collected signatures over its selected valset. -/
+theorem accepted_calldata_decodes_to_the_message (m : QMsg) (hw : m.Wf) (data : Bytes)
+    (hv : verifyAgainstTx m data = .ok) (d : Bytes × List Ty × List V)
+    (hd : m.action.delivered m.id = some d) (c' : V) (vals' : List V)
+    (ht' : hasTypeArgs (consensusTy :: d.2.1) (c' :: vals') = true)
+    (hdata : data = d.1 ++ encodeArgs (consensusTy :: d.2.1) (c' :: vals')) :
+    m.action.mustCarry m.id = some (d.1, vals') ∧
+      ∃ i, 1 ≤ i ∧ i ≤ m.sigs.length ∧ c' = consensusV m.valset (m.sigs.take i) := by
+  obtain ⟨h1, h2⟩ := exact_calldata_binds_values m data d hd (verify_ok_exact m data hv) hw.cons
+    (delivered_typed m hw d hd) c' vals' ht' hdata
+  refine ⟨?_, h2⟩
+  rw [← delivered_mustCarry, hd, h1]
+  rfl
+
+/-! ### 2. every other call data is rejected -/
+
+/-- **corrupted_calldata_rejected.** If `data` is not the encoding of `m` for any non-empty
+signature prefix, verification does not succeed (the specific corruptions follow). -/
+theorem corrupted_calldata_rejected (m : QMsg) (data : Bytes) (h : ¬ ExactFor m data) :
+    verifyAgainstTx m data ≠ .ok := fun hv => h (verify_ok_exact m data hv)
+
+/-- `VerifyAgainstTX` has two answers -/
+theorem verify_not_ok_iff (m : QMsg) (data : Bytes) :
+    verifyAgainstTx m data ≠ .ok ↔ verifyAgainstTx m data = .notVerified := by
+  cases verifyAgainstTx m data <;> simp
+
+/-- **corrupted_field_rejected.** All single- and multi-field corruptions of otherwise valid call
+data: the packing (same method, any well-typed consensus tuple) of an argument list that differs
+from the message's in AT LEAST ONE value — another target, payload, fee, fee payer, message id,
+deadline, relayer, valset member, power, valset id or estimate — is not verified. -/
+theorem corrupted_field_rejected (m : QMsg) (hw : m.Wf) (d : Bytes × List Ty × List V)
+    (hd : m.action.delivered m.id = some d) (c' : V) (vals' : List V)
+    (ht' : hasTypeArgs (consensusTy :: d.2.1) (c' :: vals') = true) (hne : vals' ≠ d.2.2) :
+    verifyAgainstTx m (calldata d.1 d.2.1 vals' c') = .notVerified := by
+  rw [← verify_not_ok_iff]
+  intro hv
+  exact hne (exact_calldata_binds_values m _ d hd (verify_ok_exact m _ hv) hw.cons
+    (delivered_typed m hw d hd) c' vals' ht' rfl).1
+
+/-- **foreign_consensus_rejected.** The same for the consensus argument: the message's own values
+under a consensus tuple that is not built from its selected valset and one of the non-empty prefixes
+of its collected signatures (another valset, other signatures, the empty prefix when that differs)
+is not verified. -/
+theorem foreign_consensus_rejected (m : QMsg) (hw : m.Wf) (d : Bytes × List Ty × List V)
+    (hd : m.action.delivered m.id = some d) (c' : V) (hc' : hasType consensusTy c' = true)
+    (hne : ∀ i, 1 ≤ i → i ≤ m.sigs.length → c' ≠ consensusV m.valset (m.sigs.take i)) :
+    verifyAgainstTx m (calldata d.1 d.2.1 d.2.2 c') = .notVerified := by
+  rw [← verify_not_ok_iff]
+  intro hv
+  obtain ⟨-, i, h1, h2, h3⟩ := exact_calldata_binds_values m _ d hd (verify_ok_exact m _ hv) hw.cons
+    (delivered_typed m hw d hd) c' d.2.2 (delivered_typed m hw d hd c' hc') rfl
+  exact hne i h1 h2 h3
+
+/-- **accepted_calldata_starts_with_selector.** Accepted call data of an ABI action begins with the
+four selector bytes of that action's compass method … -/
+theorem accepted_calldata_starts_with_selector (m : QMsg) (data : Bytes) (hu : isUp m.action = false)
+    (hv : verifyAgainstTx m data = .ok) :
+    ∃ d, m.action.delivered m.id = some d ∧ data.take 4 = d.1 := by
+  obtain ⟨d, i, hd, -, -, -, h⟩ := accepted_calldata_content m data hu hv
+  refine ⟨d, hd, ?_⟩
+  rw [h, List.take_append_of_le_length (by rw [delivered_sel_length _ _ _ hd]; exact Nat.le_refl 4),
+    ← delivered_sel_length _ _ _ hd, List.take_length]
+
+/-- **other_selector_rejected.** … so call data whose first four bytes are anything else (another
+compass method with the same arguments, a foreign contract's method, fewer than four bytes) is not
+verified, whatever follows. -/
+theorem other_selector_rejected (m : QMsg) (data : Bytes) (d : Bytes × List Ty × List V)
+    (hd : m.action.delivered m.id = some d) (hsel : data.take 4 ≠ d.1) :
+    verifyAgainstTx m data = .notVerified := by
+  rw [← verify_not_ok_iff]
+  intro hv
+  have hu : isUp m.action = false := by
+    cases ha : m.action <;> simp [ha, isUp, Action.delivered] at hd ⊢
+  obtain ⟨d', hd', h⟩ := accepted_calldata_starts_with_selector m data hu hv
+  rw [hd] at hd'
+  injection hd' with hd'
+  subst hd'
+  exact hsel h
+
+/-- **accepted_calldata_self_delimiting.** Nothing may follow accepted call data and nothing may be
+missing, for EVERY action type: a byte string and a proper extension of it are never both verified
+for the same message.  (ABI actions: all candidate encodings — one per signature prefix — are
+encodings of well-typed argument lists, and the ABI encoding is prefix-free,
+`Abi.encode_prefix_free`; compass upload: the expected string is unique.) -/
+theorem accepted_calldata_self_delimiting (m : QMsg) (hw : m.Wf) (data extra : Bytes)
+    (he : extra ≠ []) :
+    ¬ (verifyAgainstTx m data = .ok ∧ verifyAgainstTx m (data ++ extra) = .ok) := by
+  rintro ⟨h1, h2⟩
+  rcases verify_ok_exact m _ h1 with ⟨hu, hd⟩ | ⟨hu, d, i, hd, -, -, hdat⟩
+  · rcases verify_ok_exact m _ h2 with ⟨-, hd2⟩ | ⟨hu2, -⟩
+    · rw [hd] at hd2
+      have hl := congrArg List.length hd2
+      simp only [List.length_append] at hl
+      exact he (List.eq_nil_of_length_eq_zero (by omega))
+    · rw [hu] at hu2; cases hu2
+  · rcases verify_ok_exact m _ h2 with ⟨hu2, -⟩ | ⟨-, d2, j, hd2, -, -, hdat2⟩
+    · rw [hu] at hu2; cases hu2
+    · rw [hd] at hd2
+      injection hd2 with hd2
+      subst hd2
+      rw [hdat] at hdat2
+      unfold calldata at hdat2
+      rw [List.append_assoc] at hdat2
+      have h3 := List.append_cancel_left hdat2
+      have hti := delivered_typed m hw d hd _ (consensus_typed m.valset (m.sigs.take i) (consWf_take _ _ hw.cons i))
+      have htj := delivered_typed m hw d hd _ (consensus_typed m.valset (m.sigs.take j) (consWf_take _ _ hw.cons j))
+      have := encode_prefix_free (.tuple (consensusTy :: d.2.1)) _ _ extra [] hti htj
+        (by rw [List.append_nil]; exact h3)
+      exact he this.2
+
+/-- **trailing_bytes_rejected.** Accepted call data followed by at least one more byte is not
+verified (any action type). -/
+theorem trailing_bytes_rejected (m : QMsg) (hw : m.Wf) (data extra : Bytes) (he : extra ≠ [])
+    (hv : verifyAgainstTx m data = .ok) : verifyAgainstTx m (data ++ extra) = .notVerified := by
+  rw [← verify_not_ok_iff]
+  exact fun h => accepted_calldata_self_delimiting m hw data extra he ⟨hv, h⟩
+
+/-- **truncated_calldata_rejected.** A proper prefix of accepted call data (a cut argument block,
+the selector alone, the empty string) is not verified (any action type). -/
+theorem truncated_calldata_rejected (m : QMsg) (hw : m.Wf) (data rest : Bytes) (hr : rest ≠ [])
+    (hv : verifyAgainstTx m (data ++ rest) = .ok) : verifyAgainstTx m data = .notVerified := by
+  rw [← verify_not_ok_iff]
+  exact fun h => accepted_calldata_self_delimiting m hw data rest hr ⟨h, hv⟩
+
+/-- **empty_prefix_never_tried.** "a prefix of the collected signatures": the Go loop runs
+`for i := len(sigs); i > 0; i--`; without signatures nothing verifies. -/
+theorem empty_prefix_never_tried (m : QMsg) (data : Bytes) (hu : isUp m.action = false)
+    (hs : m.sigs = []) : verifyAgainstTx m data ≠ .ok := by
+  intro hv
+  rcases verify_ok_exact m data hv with ⟨hu', -⟩ | ⟨-, d, i, -, h1, h2, -⟩
+  · rw [hu] at hu'; cases hu'
+  · rw [hs] at h2
+    simp at h2
+    omega
+
+/-! ### 3. what the signature slots of accepted call data are -/
+
+/-- **consensus_slots_are_collected_signatures.** The consensus tuple has exactly one signature slot
+per validator STRING of the selected valset, in valset order.  A slot is either `(v, r, s)` of a
+collected signature of the prefix that is stored under exactly that validator's external address,
+or `(0, 0, 0)` — the latter precisely when NO signature of the prefix is stored under that address.
+Signatures of the prefix by addresses that are not in the selected valset appear nowhere. -/
+theorem consensus_slots_are_collected_signatures (vs : GoValset) (sd : List SignData) :
+    consensusV vs sd = .seq [compassValsetV vs, .seq (vs.validators.map fun v => sigV (lookupSig sd v))] ∧
+    ∀ v, (∃ s ∈ sd, s.ext = v ∧ sigV (lookupSig sd v) = .seq [.word s.v, .word s.r, .word s.s]) ∨
+         ((∀ s ∈ sd, s.ext ≠ v) ∧ sigV (lookupSig sd v) = .seq [.word 0, .word 0, .word 0]) := by
+  refine ⟨rfl, ?_⟩
+  intro v
+  cases h : lookupSig sd v with
+  | some s =>
+    obtain ⟨h1, h2⟩ := lookupSig_some sd v s h
+    exact .inl ⟨s, h1, h2, rfl⟩
+  | none => exact .inr ⟨(lookupSig_none sd v).1 h, rfl⟩
+
+/-- **prefix_of_strangers_is_the_empty_consensus.** When no signature of the prefix is stored under
+an address of the selected valset, the consensus tuple is the one built from NO signature at all:
+every slot is `(0, 0, 0)`. -/
+theorem prefix_of_strangers_is_the_empty_consensus (vs : GoValset) (sd : List SignData)
+    (h : ∀ s ∈ sd, s.ext ∉ vs.validators) : consensusV vs sd = consensusV vs [] := by
+  have hm : (vs.validators.map fun v => sigV (lookupSig sd v)) =
+      vs.validators.map fun v => sigV (lookupSig [] v) := by
+    apply List.map_congr_left
+    intro v hv
+    have : lookupSig sd v = none := (lookupSig_none sd v).2 fun s hs he => h s hs (he ▸ hv)
+    rw [this]
+    rfl
+  unfold consensusV
+  rw [hm]
+
+/-
+FULL-STRENGTH reading that does NOT hold (audit finding "a non-empty prefix can carry zero real
+signatures"):
+
+  theorem accepted_calldata_carries_a_signature (m : QMsg) (data : Bytes) (hu : isUp m.action = false)
+      (hv : verifyAgainstTx m data = .ok) :
+      ∃ s ∈ m.sigs, s.ext ∈ m.valset.validators   -- some slot holds a collected signature
+
+The Go code (`BuildCompassConsensus`) looks the collected signatures up by the validator strings of
+the valset selected through `PublicAccessData.ValsetID`; signatures stored under other addresses —
+or all of them, when that valset is the empty one (id 0 / unknown snapshot) — are dropped silently
+and the loop `for i := len(sigs); i > 0; i--` only requires that SOME signature was collected.  The
+negation is proved with a concrete witness below; `accepted_slots_partial` is the true part.
+Reproduced on the implementation by the harness (Props/C07.md, finding 3).  Within the text of C07
+(call data = encoding of "validator set and a prefix of the collected signatures") this is
+conforming: the encoding of such a prefix IS the all-zero tuple; a real compass rejects it.
+-/
+
+/-- **signatureless_calldata_accepted.** Honest statement of that behaviour: if the message has at
+least one collected signature but none under an address of the selected valset, then the call data
+whose consensus tuple carries NO signature (all slots zero) is verified. -/
+theorem signatureless_calldata_accepted (m : QMsg) (d : Bytes × List Ty × List V)
+    (hd : m.action.delivered m.id = some d) (hne : m.sigs ≠ [])
+    (hs : ∀ s ∈ m.sigs, s.ext ∉ m.valset.validators) :
+    verifyAgainstTx m (calldata d.1 d.2.1 d.2.2 (consensusV m.valset [])) = .ok := by
+  apply exact_verify_ok
+  have hu : isUp m.action = false := by
+    cases ha : m.action <;> simp [ha, isUp, Action.delivered] at hd ⊢
+  refine .inr ⟨hu, d, 1, hd, Nat.le_refl 1, ?_, ?_⟩
+  · cases hsg : m.sigs with
+    | nil => exact absurd hsg hne
+    | cons x xs => simp
+  · rw [prefix_of_strangers_is_the_empty_consensus m.valset (m.sigs.take 1)
+      fun s hs' => hs s (List.mem_of_mem_take hs')]
+
+/-- **accepted_slots_partial.** The true part: in accepted call data of an ABI action the prefix is
+non-empty (at least one signature had been collected) and every NON-ZERO signature slot is a
+collected signature of the message, stored under the external address of the validator whose slot
+it fills. -/
+theorem accepted_slots_partial (m : QMsg) (data : Bytes) (hu : isUp m.action = false)
+    (hv : verifyAgainstTx m data = .ok) :
+    ∃ d i, m.action.delivered m.id = some d ∧ 1 ≤ i ∧ i ≤ m.sigs.length ∧
+      data = calldata d.1 d.2.1 d.2.2 (consensusV m.valset (m.sigs.take i)) ∧
+      ∀ v, sigV (lookupSig (m.sigs.take i) v) ≠ .seq [.word 0, .word 0, .word 0] →
+        ∃ s ∈ m.sigs, s.ext = v ∧
+          sigV (lookupSig (m.sigs.take i) v) = .seq [.word s.v, .word s.r, .word s.s] := by
+  rcases verify_ok_exact m data hv with ⟨hu', -⟩ | ⟨-, d, i, hd, h1, h2, h3⟩
+  · rw [hu] at hu'; cases hu'
+  · refine ⟨d, i, hd, h1, h2, h3, ?_⟩
+    intro v hz
+    rcases (consensus_slots_are_collected_signatures m.valset (m.sigs.take i)).2 v with
+      ⟨s, hs, he, hq⟩ | ⟨-, hq⟩
+    · exact ⟨s, List.mem_of_mem_take hs, he, hq⟩
+    · exact absurd hq hz
+
+
+/-! ### 4. the receipt, and: no acceptance ⇒ no success effect -/
+
 /-- **accept_implies_success_receipt.** C07, "… and its receipt reports success": acceptance
 requires a decodable receipt with status 1. -/
 theorem accept_implies_success_receipt (s : St) (id : Nat) (w : Winner)
@@ -666,12 +1500,16 @@ was used before — none of them is accepted. -/
 theorem rejections_by_cause (s : St) (id : Nat) (m : QMsg) (hm : findMsg s.queue id = some m) :
     (attest s id .none).2 = .noop ∧
     (attest s id .errorProof).2 = .errorHandled ∧
+    (attest s id .other).2 = .postErr ∧
     (∀ p, p.receipt = none → (attest s id (.tx p)).2 = .receiptErr) ∧
     (∀ p st, p.receipt = some st → st ≠ 1 → (attest s id (.tx p)).2 = .txFailed) ∧
     (∀ p, p.receipt = some 1 → p.hash ∈ s.processed → (attest s id (.tx p)).2 = .alreadyProcessed) ∧
     (∀ p, p.receipt = some 1 → p.hash ∉ s.processed → verifyAgainstTx m p.data = .notVerified →
-        (attest s id (.tx p)).2 = .notVerified) := by
-  refine ⟨?_, ?_, ?_, ?_, ?_, ?_⟩
+        (attest s id (.tx p)).2 = .notVerified) ∧
+    (∀ p, p.receipt = some 1 → p.hash ∉ s.processed → verifyAgainstTx m p.data = .ok →
+        applySuccess s.chain m p = none → (attest s id (.tx p)).2 = .postErr) := by
+  refine ⟨?_, ?_, ?_, ?_, ?_, ?_, ?_, ?_⟩
+  · simp [attest, hm]
   · simp [attest, hm]
   · simp [attest, hm]
   · intro p hp
@@ -682,35 +1520,270 @@ theorem rejections_by_cause (s : St) (id : Nat) (m : QMsg) (hm : findMsg s.queue
     simp [attest, hm, hp, hh]
   · intro p hp hh hv
     simp [attest, hm, hp, hh, hv]
+  · intro p hp hh hv hs
+    simp [attest, hm, hp, hh, hv, hs]
 
-/-- **corrupted_calldata_rejected.** Every single- or multi-field corruption of otherwise valid
-call data is rejected: if `data` is not the encoding of `m` for any non-empty signature prefix,
-verification does not succeed — and by `exact_calldata_binds_values` the encoding of any argument
-list that differs in at least one value is such a `data`. -/
-theorem corrupted_calldata_rejected (m : QMsg) (data : Bytes) (h : ¬ ExactFor m data) :
-    verifyAgainstTx m data ≠ .ok := fun hv => h (verify_ok_exact m data hv)
+/-- **unknown_message_rejected.** … and evidence for an id under which nothing is stored. -/
+theorem unknown_message_rejected (s : St) (id : Nat) (w : Winner) (h : findMsg s.queue id = none) :
+    attest s id w = (s, .unknownMsg) := by
+  simp [attest, h]
 
-/-- **empty_prefix_never_tried.** "a prefix of the collected signatures": the Go loop runs
-`for i := len(sigs); i > 0; i--`; without signatures nothing verifies. -/
-theorem empty_prefix_never_tried (m : QMsg) (data : Bytes) (hu : isUp m.action = false)
-    (hs : m.sigs = []) : verifyAgainstTx m data ≠ .ok := by
-  intro hv
-  rcases verify_ok_exact m data hv with ⟨hu', -⟩ | ⟨-, d, i, -, h1, h2, -⟩
-  · rw [hu] at hu'; cases hu'
-  · rw [hs] at h2
-    simp at h2
-    omega
+/-- **non_matching_tx_no_effects.** C07, second clause, at the router, for every state: a
+transaction proof whose receipt is missing or not successful, whose transaction was used before, or
+whose call data is not verified for the stored message is not accepted, and effect log, keeper state
+and acceptance log stay as they were.  (Instances of "not verified": `corrupted_field_rejected`,
+`foreign_consensus_rejected`, `other_selector_rejected`, `trailing_bytes_rejected`,
+`truncated_calldata_rejected`, `up_trailing_bytes_rejected`, `up_proper_prefix_rejected`.) -/
+theorem non_matching_tx_no_effects (s : St) (id : Nat) (m : QMsg) (hm : findMsg s.queue id = some m)
+    (p : TxProof)
+    (h : p.receipt ≠ some 1 ∨ p.hash ∈ s.processed ∨ verifyAgainstTx m p.data = .notVerified) :
+    (attest s id (.tx p)).2 ≠ .ok ∧ (attest s id (.tx p)).1.effects = s.effects ∧
+    (attest s id (.tx p)).1.chain = s.chain ∧ (attest s id (.tx p)).1.accepted = s.accepted := by
+  have hne : (attest s id (.tx p)).2 ≠ .ok := by
+    intro hok
+    have ho := attest_outcome s id (.tx p)
+    generalize attest s id (.tx p) = r at ho hok
+    cases ho with
+    | unchanged r hr => exact hr.1 hok
+    | errorHandled => cases hok
+    | rejected p r hw hr => rcases hr with rfl | rfl <;> cases hok
+    | accepted m' p' ce hm' hw hrc hproc hv hs =>
+      injection hw with hw
+      subst hw
+      rw [hm] at hm'
+      injection hm' with hm'
+      subst hm'
+      rcases h with h | h | h
+      · exact h hrc
+      · have : s.processed.contains p.hash = true := by simpa using h
+        rw [this] at hproc
+        cases hproc
+      · rw [h] at hv
+        cases hv
+  exact ⟨hne, effects_only_on_accept s id (.tx p) hne⟩
+
+/-- **accepting_step_shape.** What an accepting step of a history is, in terms of the executable
+state only: the message is stored under that id, the receipt reports success, the transaction was
+not used before, the call data is the encoding of that stored message, the action attester succeeds
+— and the step changes the keeper state to exactly what the action attester computed, logs exactly
+its effects and this (message, transaction) pair, spends the transaction and removes the message. -/
+theorem accepting_step_shape (s : St) (op : Op) (id : Nat) (p : TxProof) (h : Accepts s op id p) :
+    ∃ m ce, findMsg s.queue id = some m ∧ m.id = id ∧ p.receipt = some 1 ∧ p.hash ∉ s.processed ∧
+      ExactFor m p.data ∧ applySuccess s.chain m p = some ce ∧
+      (step s op).chain = ce.1 ∧ (step s op).effects = ce.2 ++ s.effects ∧
+      (step s op).accepted = (id, p.hash) :: s.accepted ∧
+      (step s op).processed = p.hash :: s.processed ∧
+      id ∉ (step s op).queue.map (·.id) := by
+  rw [attempt_step s op id (.tx p) h.1]
+  have hok := h.2
+  have ho := attest_outcome s id (.tx p)
+  generalize attest s id (.tx p) = r at ho hok
+  cases ho with
+  | unchanged r hr => exact absurd hok hr.1
+  | errorHandled => cases hok
+  | rejected p r hw hr => rcases hr with rfl | rfl <;> cases hok
+  | accepted m p' ce hm hw hrc hproc hv hs =>
+    injection hw with hw
+    subst hw
+    refine ⟨m, ce, hm, (findMsg_some hm).2, hrc, ?_, verify_ok_exact m _ hv, hs, rfl, rfl, rfl, rfl,
+      not_mem_removeMsg _ _⟩
+    intro hin
+    have : s.processed.contains p.hash = true := by simpa using hin
+    rw [this] at hproc
+    cases hproc
+
+/-- **state_changes_only_by_accepting_attestation.** The converse ("only on accept"), for EVERY op
+of a history — enqueue, rewrite of a stored message, removal, environment, attestation attempts with
+any winner or any evidence: if a step changes the effect log or the acceptance log, or changes the
+keeper state read by the attesters without being the environment op `setChain` itself, then the op
+is an accepting attestation of some message by some transaction proof (whose conditions are
+`accepting_step_shape`).  `setChain` stands for ALL other keeper activity (new snapshots, new
+deployments, governance); nothing is assumed about it. -/
+theorem state_changes_only_by_accepting_attestation (s : St) (op : Op) :
+    ((step s op).effects = s.effects ∧ (step s op).accepted = s.accepted ∧
+      ((step s op).chain = s.chain ∨ ∃ c, op = .setChain c)) ∨ ∃ id p, Accepts s op id p := by
+  cases hat : op.attempt with
+  | none =>
+    have := no_attempt_step s op hat
+    exact .inl ⟨this.2.1, this.1, this.2.2.2⟩
+  | some iw =>
+    obtain ⟨id, w⟩ := iw
+    by_cases hok : (attest s id w).2 = .ok
+    · obtain ⟨p, hw, -⟩ := accept_implies_success_receipt s id w hok
+      subst hw
+      exact .inr ⟨id, p, hat, hok⟩
+    · have := effects_only_on_accept s id w hok
+      rw [attempt_step s op id w hat]
+      exact .inl ⟨this.1, this.2.2, .inl this.2.1⟩
+
+/-- **chain_delta_is_logged.** The effect log is complete with respect to the executable keeper
+state: when the action attester changes the keeper state at all, it reports at least one effect. -/
+theorem chain_delta_is_logged (c : Chain) (m : QMsg) (p : TxProof) (ce : Chain × List Effect)
+    (h : applySuccess c m p = some ce) (hfx : ce.2 = []) : ce.1 = c := by
+  unfold applySuccess at h
+  split at h
+  · split at h <;> (injection h with h; subst h; first | rfl | cases hfx)
+  · injection h with h; subst h; rfl
+  · split at h
+    · cases h
+    · split at h
+      · cases h
+      · injection h with h; subst h; rfl
+  · split at h
+    · cases h
+    · injection h with h; subst h; cases hfx
+  · split at h
+    · cases h
+    · split at h
+      · split at h
+        · cases h
+        · split at h
+          · cases h
+          · injection h with h; subst h; cases hfx
+      · split at h
+        · cases h
+        · injection h with h; subst h; cases hfx
+
+
+/-- **effect_entries_describe_the_state_change.** Every entry of the effect log is a statement about
+the EXECUTABLE keeper state before (`c`) and after (`ce.1`) the accepting step, and about the action
+of the accepted message: a "snapshot live" entry means that this snapshot exists and the chain has
+a live snapshot afterwards, and it is the snapshot named by the accepted update-valset (or the
+current one, on the first compass deployment of a chain without live snapshot); "deployment
+recorded" / "handover scheduled" / "activated" mean that the compass deployment with the contract id
+of the accepted upload / handover message went from in-flight to waiting, resp. from waiting to
+active-and-deleted with the chain's active contract id at least that id; "user contract active"
+means the accepted message was that user deployment, its receipt carried the `ContractDeployed` log
+and the deployment record exists. -/
+theorem effect_entries_describe_the_state_change (c : Chain) (m : QMsg) (p : TxProof)
+    (ce : Chain × List Effect) (h : applySuccess c m p = some ce) :
+    (∀ i v, Effect.snapshotLive i v ∈ ce.2 → c.snapshots.contains v = true ∧ ce.1.hasSnapshot = true ∧
+      ((∃ f, m.action = .uv f v) ∨
+        (∃ bc ct cid, m.action = .up bc ct cid ∧ c.hasSnapshot = false ∧ v = c.currentSnapshot))) ∧
+    (∀ i cid, Effect.deploymentRecorded i cid ∈ ce.2 →
+      (∃ bc ct, m.action = .up bc ct cid) ∧ depStatus c cid = some .inFlight) ∧
+    (∀ i cid, Effect.activated i cid ∈ ce.2 → depStatus ce.1 cid = none ∧ cid ≤ ce.1.activeContract ∧
+      ((∃ f, m.action = .ch f cid ∧ depStatus c cid = some .waiting) ∨
+        (∃ bc ct, m.action = .up bc ct cid ∧ c.hasSnapshot = false))) ∧
+    (∀ i cid, Effect.handoverScheduled i cid ∈ ce.2 → (∃ bc ct, m.action = .up bc ct cid) ∧
+      depStatus ce.1 cid = some .waiting ∧ c.hasSnapshot = true ∧ c.handoverOk = true) ∧
+    (∀ i cid, Effect.userActive i cid ∈ ce.2 → (∃ f, m.action = .usc f cid) ∧ p.deployLog = true ∧
+      c.userDeployments.contains cid = true ∧ ce.1 = c) := by
+  unfold applySuccess at h
+  split at h
+  · -- update valset
+    rename_i f vid ha
+    split at h
+    · rename_i hs
+      injection h with h
+      subst h
+      refine ⟨?_, ?_, ?_, ?_, ?_⟩ <;> intro i x hx <;>
+        simp only [List.mem_singleton, Effect.snapshotLive.injEq, reduceCtorEq] at hx
+      obtain ⟨-, rfl⟩ := hx
+      exact ⟨hs, rfl, .inl ⟨f, ha⟩⟩
+    · injection h with h
+      subst h
+      refine ⟨?_, ?_, ?_, ?_, ?_⟩ <;> intro i x hx <;> cases hx
+  · -- logic call
+    injection h with h
+    subst h
+    refine ⟨?_, ?_, ?_, ?_, ?_⟩ <;> intro i x hx <;> cases hx
+  · -- user contract
+    rename_i f cid ha
+    split at h
+    · cases h
+    · rename_i hlog
+      split at h
+      · cases h
+      · rename_i hud
+        injection h with h
+        subst h
+        refine ⟨?_, ?_, ?_, ?_, ?_⟩ <;> intro i x hx <;>
+          simp only [List.mem_singleton, Effect.userActive.injEq, reduceCtorEq] at hx
+        obtain ⟨-, rfl⟩ := hx
+        exact ⟨⟨f, ha⟩, by simpa using hlog, by simpa using hud, rfl⟩
+  · -- compass handover
+    rename_i f cid ha
+    split at h
+    · cases h
+    · rename_i c' hsa
+      injection h with h
+      subst h
+      have hsp := setActive_spec c c' cid hsa
+      refine ⟨?_, ?_, ?_, ?_, ?_⟩ <;> intro i x hx <;>
+        simp only [List.mem_singleton, Effect.activated.injEq, reduceCtorEq] at hx
+      obtain ⟨-, rfl⟩ := hx
+      exact ⟨hsp.2.1, hsp.2.2.1, .inl ⟨f, ha, hsp.1⟩⟩
+  · -- compass upload
+    rename_i bc ct cid ha
+    split at h
+    · cases h
+    · rename_i hfl
+      have hfl' : depStatus c cid = some .inFlight := by simpa using hfl
+      split at h
+      · rename_i hns
+        have hns' : c.hasSnapshot = false := by simpa using hns
+        split at h
+        · cases h
+        · rename_i hcur
+          split at h
+          · cases h
+          · rename_i c2 hsa
+            injection h with h
+            subst h
+            have hsp := setActive_spec _ c2 cid hsa
+            refine ⟨?_, ?_, ?_, ?_, ?_⟩ <;> intro i x hx <;>
+              simp only [List.mem_cons, Effect.activated.injEq,
+                Effect.snapshotLive.injEq, Effect.deploymentRecorded.injEq, reduceCtorEq, false_or,
+                or_false, List.not_mem_nil] at hx
+            · obtain ⟨-, rfl⟩ := hx
+              exact ⟨by simpa using hcur, by rw [hsp.2.2.2.2], .inr ⟨bc, ct, cid, ha, hns', rfl⟩⟩
+            · obtain ⟨-, rfl⟩ := hx
+              exact ⟨⟨bc, ct, ha⟩, hfl'⟩
+            · obtain ⟨-, rfl⟩ := hx
+              exact ⟨hsp.2.1, hsp.2.2.1, .inr ⟨bc, ct, ha, hns'⟩⟩
+      · rename_i hns
+        split at h
+        · cases h
+        · rename_i hho
+          injection h with h
+          subst h
+          refine ⟨?_, ?_, ?_, ?_, ?_⟩ <;> intro i x hx <;>
+            simp only [List.mem_cons, Effect.handoverScheduled.injEq,
+              Effect.deploymentRecorded.injEq, reduceCtorEq, false_or, or_false, List.not_mem_nil] at hx
+          · obtain ⟨-, rfl⟩ := hx
+            exact ⟨⟨bc, ct, ha⟩, hfl'⟩
+          · obtain ⟨-, rfl⟩ := hx
+            exact ⟨⟨bc, ct, ha⟩, depStatus_setDep c _ .waiting, by simpa using hns, by simpa using hho⟩
+
+
+/-! ### 5. the vote: the receipt is part of the evidence identity -/
+
+/-- **driver_hash_is_collision_free.** The naming the executable model (`winnerOf`, `attestEv`,
+`Op.attestEv`, the compiled driver) uses for proofs is an instance of the no-collision assumption
+— so every theorem below applies to it unconditionally. -/
+theorem driver_hash_is_collision_free (evs : List EvidenceV) : NoCollOn (idealHash evs) evs :=
+  idealHash_noCollOn evs
+
+/-- **winner_is_first_of_a_quorum_hash_group.** What the Go vote guarantees with NO assumption on
+the hash: a winner is the first stored proof of a group of evidence with EQUAL HASH whose validators
+hold 2/3 of the snapshot's shares. -/
+theorem winner_is_first_of_a_quorum_hash_group (hp : ProofV → Nat) (snap : Libcons.Snapshot)
+    (evs : List EvidenceV) (h : winnerOfH hp snap evs ≠ .none) :
+    ∃ P, P ∈ evs.map (·.2) ∧ winnerOfH hp snap evs = P.toWinner ∧
+      (Libcons.tally snap (groupForH hp evs (hp P))).consensus = true :=
+  winnerOfH_spec_hash hp snap evs h
 
 /-- **receipt_is_part_of_the_evidence_identity.** The evidence of the validators is grouped by the
-bytes of the WHOLE proof — transaction and receipt (`BytesToHash` = serialized tx ++ serialized
-receipt).  If the vote yields the transaction proof `p`, then the validators whose evidence is
-byte-identical to `p` (same transaction, same receipt status, same logs, same everything) hold at
-least 2/3 of the snapshot's shares.  Evidence with the same transaction but another receipt does
-not count towards it. -/
-theorem receipt_is_part_of_the_evidence_identity (snap : Libcons.Snapshot) (evs : List EvidenceV)
-    (p : TxProof) (h : winnerOf snap evs = .tx p) :
+hash of the bytes of the WHOLE proof — transaction and receipt (`BytesToHash` = serialized tx ++
+serialized receipt).  ASSUMPTION `NoCollOn hp evs`: sha256 does not collide on the submitted proofs.
+Then, if the vote yields the transaction proof `p`, the validators whose evidence is byte-identical
+to `p` (same transaction, same receipt status, same logs, same everything) hold at least 2/3 of the
+snapshot's shares.  Evidence with the same transaction but another receipt does not count. -/
+theorem receipt_is_part_of_the_evidence_identity (hp : ProofV → Nat) (snap : Libcons.Snapshot)
+    (evs : List EvidenceV) (hnc : NoCollOn hp evs) (p : TxProof) (h : winnerOfH hp snap evs = .tx p) :
     (Libcons.tally snap (groupFor evs (.tx p))).consensus = true ∧ ProofV.tx p ∈ evs.map (·.2) := by
-  obtain ⟨P, hP, hw, hc⟩ := winnerOf_spec snap evs (by rw [h]; intro h'; cases h')
+  obtain ⟨P, hP, hw, hc⟩ := winnerOfH_spec hp snap evs hnc (by rw [h]; intro h'; cases h')
   rw [h] at hw
   cases P with
   | tx q =>
@@ -720,47 +1793,54 @@ theorem receipt_is_part_of_the_evidence_identity (snap : Libcons.Snapshot) (evs 
   | errorProof _ => simp [ProofV.toWinner] at hw
   | other _ => simp [ProofV.toWinner] at hw
 
-/-- **effects_need_quorum_on_success_receipt.** C07 with disagreeing validators: success effects
-are produced (result `ok`) only if some transaction proof `p` with a SUCCESS receipt is reported
-byte-identically by validators holding 2/3 of the shares, and its call data is the encoding of the
-message.  A success receipt reported by a minority — first in the list or not — next to a majority
-reporting a failed (or any other) receipt for the same transaction never produces them. -/
-theorem effects_need_quorum_on_success_receipt (s : St) (id : Nat) (snap : Libcons.Snapshot)
-    (evs : List EvidenceV) (h : (attestEv s id snap evs).2 = .ok) :
+/-- **effects_need_quorum_on_success_receipt.** C07 with disagreeing validators, for the Go vote
+under any proof hash that does not collide on the submitted proofs: success effects are produced
+(result `ok`) only if some transaction proof `p` with a SUCCESS receipt is reported byte-identically
+by validators holding 2/3 of the shares, and its call data is the encoding of the stored message.
+A success receipt reported by a minority — first in the list or not — next to a majority reporting a
+failed (or any other) receipt for the same transaction never produces them. -/
+theorem effects_need_quorum_on_success_receipt (hp : ProofV → Nat) (s : St) (id : Nat)
+    (snap : Libcons.Snapshot) (evs : List EvidenceV) (hnc : NoCollOn hp evs)
+    (h : (attestEvH hp s id snap evs).2 = .ok) :
     ∃ m p, findMsg s.queue id = some m ∧ p.receipt = some 1 ∧ ExactFor m p.data ∧
       ProofV.tx p ∈ evs.map (·.2) ∧ (Libcons.tally snap (groupFor evs (.tx p))).consensus = true := by
-  unfold attestEv at h
-  obtain ⟨m, p, hm, hw, hex⟩ := accept_implies_exact_calldata s id _ h
+  unfold attestEvH at h
+  obtain ⟨m, p, hm, -, hw, hex⟩ := accept_implies_exact_calldata s id _ h
   obtain ⟨p', hw', hr⟩ := accept_implies_success_receipt s id _ h
   rw [hw] at hw'
   injection hw' with hw'
   subst hw'
-  obtain ⟨hc, hmem⟩ := receipt_is_part_of_the_evidence_identity snap evs p hw
+  obtain ⟨hc, hmem⟩ := receipt_is_part_of_the_evidence_identity hp snap evs hnc p hw
   exact ⟨m, p, hm, hr, hex, hmem, hc⟩
 
+/-- **effects_need_quorum_on_success_receipt_model.** The same for the executable vote of the model
+(`attestEv`, what `Op.attestEv` runs), with no hypothesis left. -/
+theorem effects_need_quorum_on_success_receipt_model (s : St) (id : Nat) (snap : Libcons.Snapshot)
+    (evs : List EvidenceV) (h : (attestEv s id snap evs).2 = .ok) :
+    ∃ m p, findMsg s.queue id = some m ∧ p.receipt = some 1 ∧ ExactFor m p.data ∧
+      ProofV.tx p ∈ evs.map (·.2) ∧ (Libcons.tally snap (groupFor evs (.tx p))).consensus = true :=
+  effects_need_quorum_on_success_receipt (idealHash evs) s id snap evs (idealHash_noCollOn evs) h
+
 /-- **disagreeing_receipts_no_effects.** Contrapositive, in the shape of the monitor: when no
-success-receipt proof is backed by a 2/3 group of byte-identical evidence, nothing is accepted. -/
-theorem disagreeing_receipts_no_effects (s : St) (id : Nat) (snap : Libcons.Snapshot)
-    (evs : List EvidenceV)
+success-receipt proof is backed by a 2/3 group of byte-identical evidence, nothing is accepted and
+effect log, keeper state and acceptance log stay as they were. -/
+theorem disagreeing_receipts_no_effects (hp : ProofV → Nat) (s : St) (id : Nat)
+    (snap : Libcons.Snapshot) (evs : List EvidenceV) (hnc : NoCollOn hp evs)
     (h : ∀ p : TxProof, p.receipt = some 1 → (Libcons.tally snap (groupFor evs (.tx p))).consensus = false) :
-    (attestEv s id snap evs).2 ≠ .ok := by
-  intro hok
-  obtain ⟨m, p, -, hr, -, -, hc⟩ := effects_need_quorum_on_success_receipt s id snap evs hok
-  rw [h p hr] at hc
-  cases hc
+    (attestEvH hp s id snap evs).2 ≠ .ok ∧ (attestEvH hp s id snap evs).1.effects = s.effects ∧
+    (attestEvH hp s id snap evs).1.chain = s.chain ∧
+    (attestEvH hp s id snap evs).1.accepted = s.accepted := by
+  have hne : (attestEvH hp s id snap evs).2 ≠ .ok := by
+    intro hok
+    obtain ⟨m, p, -, hr, -, -, hc⟩ := effects_need_quorum_on_success_receipt hp s id snap evs hnc hok
+    rw [h p hr] at hc
+    cases hc
+  exact ⟨hne, effects_only_on_accept s id _ hne⟩
 
-/-- **tx_single_use.** C07, "the same remote transaction is never accepted for a second message":
-over every history of enqueue / update / remove / keeper activity / attestation attempts, the
-transaction hashes of all acceptances are pairwise different, and every accepted transaction is in
-the processed set. -/
-theorem tx_single_use (ops : List Op) :
-    ((run {} ops).accepted.map (·.2)).Nodup ∧
-    ∀ a ∈ (run {} ops).accepted, a.2 ∈ (run {} ops).processed := by
-  have := run_inv ops {} inv_init
-  exact ⟨this.accTxs, this.accProcessed⟩
+/-! ### 6. single use of a transaction, at most one acceptance of a message -/
 
-/-- **processed_tx_rejected.** … and in any state a transaction that is already in the processed
-set is never accepted, whatever the message. -/
+/-- **processed_tx_rejected.** In any state a transaction that is already in the processed set is
+never accepted, whatever the message. -/
 theorem processed_tx_rejected (s : St) (id : Nat) (p : TxProof) (h : p.hash ∈ s.processed) :
     (attest s id (.tx p)).2 ≠ .ok := by
   intro hok
@@ -782,29 +1862,177 @@ transaction to the processed set (so it can never be presented again). -/
 theorem marks_transaction (s : St) (id : Nat) (p : TxProof)
     (h : (attest s id (.tx p)).2 = .ok ∨ (attest s id (.tx p)).2 = .txFailed ∨
          (attest s id (.tx p)).2 = .notVerified) :
-    p.hash ∈ (attest s id (.tx p)).1.processed := by
-  have ho := attest_outcome s id (.tx p)
-  generalize attest s id (.tx p) = r at ho h
-  cases ho with
-  | unchanged r hr =>
-    rcases h with h | h | h
-    · exact absurd h hr.1
-    · exact absurd h hr.2.1
-    · exact absurd h hr.2.2
-  | errorHandled => rcases h with h | h | h <;> cases h
-  | rejected p' r hw hr =>
-    injection hw with hw
-    subst hw
-    simp [commitReject]
-  | accepted m p' ce hm hw hrc hproc hv hs =>
-    injection hw with hw
-    subst hw
-    simp
+    p.hash ∈ (attest s id (.tx p)).1.processed :=
+  (mem_attest_processed s id (.tx p) p.hash).2 (.inr ⟨p, rfl, rfl, h⟩)
 
-/-- **effects_at_most_once.** C07, "each message's success effects are applied at most once": over
-every history, each message id is accepted at most once, an accepted message is gone from the
-queue for good (ids are never reissued, C05), every success effect belongs to an accepted message,
-and there is at most one effect of each kind per message. -/
+/-- **processed_set_is_history.** The processed-transaction store after a history is a function of
+the history: a hash is in it iff at some point of the history an attestation attempt presented a
+transaction proof with that hash and the router answered `ok`, `ErrEthTxFailed` or
+`ErrEthTxNotVerified` (the three committed outcomes). -/
+theorem processed_set_is_history (ops : List Op) (h : Nat) :
+    h ∈ (run {} ops).processed ↔
+      ∃ pre op post id p, ops = pre ++ op :: post ∧ op.attempt = some (id, .tx p) ∧ p.hash = h ∧
+        ((attest (run {} pre) id (.tx p)).2 = .ok ∨ (attest (run {} pre) id (.tx p)).2 = .txFailed ∨
+          (attest (run {} pre) id (.tx p)).2 = .notVerified) := by
+  have hstep : ∀ s op (h : Nat), h ∈ (step s op).processed ↔ h ∈ s.processed ∨
+      ∃ id p, op.attempt = some (id, .tx p) ∧ p.hash = h ∧
+        ((attest s id (.tx p)).2 = .ok ∨ (attest s id (.tx p)).2 = .txFailed ∨
+          (attest s id (.tx p)).2 = .notVerified) := by
+    intro s op h
+    cases hat : op.attempt with
+    | none =>
+      rw [(no_attempt_step s op hat).2.2.1]
+      constructor
+      · exact fun h => .inl h
+      · rintro (h | ⟨_, _, h, -⟩)
+        · exact h
+        · cases h
+    | some iw =>
+      obtain ⟨id, w⟩ := iw
+      rw [attempt_step s op id w hat, mem_attest_processed]
+      constructor
+      · rintro (h | ⟨p, hw, hh, hr⟩)
+        · exact .inl h
+        · subst hw
+          exact .inr ⟨id, p, rfl, hh, hr⟩
+      · rintro (h | ⟨id', p, h1, hh, hr⟩)
+        · exact .inl h
+        · simp only [Option.some.injEq, Prod.mk.injEq] at h1
+          obtain ⟨rfl, rfl⟩ := h1
+          exact .inr ⟨p, rfl, hh, hr⟩
+  rw [run_log_iff (·.processed) _ hstep ops {} h]
+  constructor
+  · rintro (h | ⟨pre, op, post, ho, id, p, h1, h2, h3⟩)
+    · cases h
+    · exact ⟨pre, op, post, id, p, ho, h1, h2, h3⟩
+  · rintro ⟨pre, op, post, id, p, ho, h1, h2, h3⟩
+    exact .inr ⟨pre, op, post, ho, id, p, h1, h2, h3⟩
+
+/-- **accepted_log_is_history.** The acceptance log is NOT an independent ghost: after any history
+`(id, h)` is in it iff the history has a point `ops = pre ++ op :: post` at which `op` is an
+accepting attestation (`Accepts`, defined from the executable router) of message `id` by a
+transaction proof with hash `h`. -/
+theorem accepted_log_is_history (ops : List Op) (a : Nat × Nat) :
+    a ∈ (run {} ops).accepted ↔
+      ∃ pre op post p, ops = pre ++ op :: post ∧ Accepts (run {} pre) op a.1 p ∧ p.hash = a.2 := by
+  rw [run_log_iff (·.accepted) _ mem_step_accepted ops {} a]
+  constructor
+  · rintro (h | ⟨pre, op, post, ho, p, h1, h2⟩)
+    · cases h
+    · exact ⟨pre, op, post, p, ho, h1, h2⟩
+  · rintro ⟨pre, op, post, p, ho, h1, h2⟩
+    exact .inr ⟨pre, op, post, ho, p, h1, h2⟩
+
+/-- **effect_log_is_history.** Likewise the effect log: an entry is in it iff it is one of the
+effects the action attester computed at an accepting step of the history, for the message stored
+under the accepted id in the state of that moment. -/
+theorem effect_log_is_history (ops : List Op) (e : Effect) :
+    e ∈ (run {} ops).effects ↔
+      ∃ pre op post id m p ce, ops = pre ++ op :: post ∧ Accepts (run {} pre) op id p ∧
+        findMsg (run {} pre).queue id = some m ∧ applySuccess (run {} pre).chain m p = some ce ∧
+        e ∈ ce.2 := by
+  rw [run_log_iff (·.effects) _ mem_step_effects ops {} e]
+  constructor
+  · rintro (h | ⟨pre, op, post, ho, id, m, p, ce, h1, h2, h3, h4⟩)
+    · cases h
+    · exact ⟨pre, op, post, id, m, p, ce, ho, h1, h2, h3, h4⟩
+  · rintro ⟨pre, op, post, id, m, p, ce, ho, h1, h2, h3, h4⟩
+    exact .inr ⟨pre, op, post, ho, id, m, p, ce, h1, h2, h3, h4⟩
+
+/-- after an accepting step the pair stays logged and the transaction stays spent, whatever follows -/
+theorem accepts_then_logged (pre : List Op) (op : Op) (id : Nat) (p : TxProof)
+    (h : Accepts (run {} pre) op id p) (mid : List Op) :
+    (id, p.hash) ∈ (run {} (pre ++ op :: mid)).accepted ∧
+    p.hash ∈ (run {} (pre ++ op :: mid)).processed := by
+  have hs := accepts_step (run {} pre) op id p h
+  rw [run_append]
+  exact ⟨mem_run_accepted_of_mem mid _ _ hs.1, run_processed_mono mid _ _ hs.2⟩
+
+/-- **message_accepted_at_most_once.** C07, "each message's success effects are applied at most
+once", on the history itself (no log): if at two points of one history an accepting attestation of
+the SAME message id happens, the two points are the same point (same op, same transaction proof).
+Ids are never reissued (shared counter), an accepted message is removed in the same committed
+step, and evidence for an id that is not stored is answered `unknown`. -/
+theorem message_accepted_at_most_once (ops pre1 post1 pre2 post2 : List Op) (op1 op2 : Op) (id : Nat)
+    (p1 p2 : TxProof) (h1 : ops = pre1 ++ op1 :: post1) (h2 : ops = pre2 ++ op2 :: post2)
+    (a1 : Accepts (run {} pre1) op1 id p1) (a2 : Accepts (run {} pre2) op2 id p2) :
+    pre1 = pre2 ∧ op1 = op2 ∧ post1 = post2 ∧ p1 = p2 := by
+  have key : ∀ (preA preB : List Op) (opA opB : Op) (pA pB : TxProof) (mid : List Op),
+      preB = preA ++ opA :: mid → Accepts (run {} preA) opA id pA → Accepts (run {} preB) opB id pB →
+      False := by
+    intro preA preB opA opB pA pB mid hm aA aB
+    have hl := (accepts_then_logged preA opA id pA aA mid).1
+    rw [← hm] at hl
+    have hg := (run_inv preB {} inv_init).accGone _ hl
+    have hnone : findMsg (run {} preB).queue id = none := by
+      unfold findMsg
+      rw [List.find?_eq_none]
+      intro x hx hxid
+      exact hg (List.mem_map.2 ⟨x, hx, by simpa using hxid⟩)
+    have := aB.2
+    rw [unknown_message_rejected _ id _ hnone] at this
+    cases this
+  rcases split_trichotomy (h1.symm.trans h2) with ⟨e1, e2, e3⟩ | ⟨mid, hm⟩ | ⟨mid, hm⟩
+  · subst e1
+    subst e2
+    have := a1.1.symm.trans a2.1
+    simp only [Option.some.injEq, Prod.mk.injEq, Winner.tx.injEq, true_and] at this
+    exact ⟨rfl, rfl, e3, this⟩
+  · exact (key pre1 pre2 op1 op2 p1 p2 mid hm a1 a2).elim
+  · exact (key pre2 pre1 op2 op1 p2 p1 mid hm a2 a1).elim
+
+/-- **tx_accepted_at_most_once.** C07, "the same remote transaction is never accepted for a second
+message", on the history itself (no log): if at two points of one history accepting attestations by
+transaction proofs with the SAME transaction hash happen — for the same or different messages, in
+the same or different serializations, with the same or different receipts — the two points are the
+same point; in particular the message is the same. -/
+theorem tx_accepted_at_most_once (ops pre1 post1 pre2 post2 : List Op) (op1 op2 : Op) (id1 id2 : Nat)
+    (p1 p2 : TxProof) (h1 : ops = pre1 ++ op1 :: post1) (h2 : ops = pre2 ++ op2 :: post2)
+    (a1 : Accepts (run {} pre1) op1 id1 p1) (a2 : Accepts (run {} pre2) op2 id2 p2)
+    (hh : p1.hash = p2.hash) :
+    pre1 = pre2 ∧ op1 = op2 ∧ post1 = post2 ∧ id1 = id2 ∧ p1 = p2 := by
+  have key : ∀ (preA preB : List Op) (opA opB : Op) (idA idB : Nat) (pA pB : TxProof) (mid : List Op),
+      preB = preA ++ opA :: mid → pA.hash = pB.hash → Accepts (run {} preA) opA idA pA →
+      Accepts (run {} preB) opB idB pB → False := by
+    intro preA preB opA opB idA idB pA pB mid hm he aA aB
+    have hl := (accepts_then_logged preA opA idA pA aA mid).2
+    rw [← hm, he] at hl
+    exact processed_tx_rejected _ idB pB hl aB.2
+  rcases split_trichotomy (h1.symm.trans h2) with ⟨e1, e2, e3⟩ | ⟨mid, hm⟩ | ⟨mid, hm⟩
+  · subst e1
+    subst e2
+    have := a1.1.symm.trans a2.1
+    simp only [Option.some.injEq, Prod.mk.injEq, Winner.tx.injEq] at this
+    exact ⟨rfl, rfl, e3, this.1, this.2⟩
+  · exact (key pre1 pre2 op1 op2 id1 id2 p1 p2 mid hm hh a1 a2).elim
+  · exact (key pre2 pre1 op2 op1 id2 id1 p2 p1 mid hm hh.symm a2 a1).elim
+
+/-- **every_acceptance_in_a_history_is_sound.** C07 first sentence over histories: every entry of
+the acceptance log of every history stems from a point of the history at which the message WAS
+stored under that id, the presented transaction had not been used, its receipt reported success and
+its call data was the encoding of the message as stored at that moment (collected signatures, fees
+and estimate of that moment). -/
+theorem every_acceptance_in_a_history_is_sound (ops : List Op) (a : Nat × Nat)
+    (ha : a ∈ (run {} ops).accepted) :
+    ∃ pre op post m p, ops = pre ++ op :: post ∧ op.attempt = some (a.1, .tx p) ∧ p.hash = a.2 ∧
+      findMsg (run {} pre).queue a.1 = some m ∧ m.id = a.1 ∧ p.receipt = some 1 ∧
+      a.2 ∉ (run {} pre).processed ∧ ExactFor m p.data := by
+  obtain ⟨pre, op, post, p, ho, hacc, hh⟩ := (accepted_log_is_history ops a).1 ha
+  obtain ⟨m, ce, hm, hid, hr, hnp, hex, -⟩ := accepting_step_shape _ op a.1 p hacc
+  exact ⟨pre, op, post, m, p, ho, hacc.1, hh, hm, hid, hr, by rw [← hh]; exact hnp, hex⟩
+
+/-- **tx_single_use.** The same two clauses on the logs (now known to be functions of the history):
+over every history the transaction hashes of all acceptances are pairwise different, and every
+accepted transaction is in the processed set. -/
+theorem tx_single_use (ops : List Op) :
+    ((run {} ops).accepted.map (·.2)).Nodup ∧
+    ∀ a ∈ (run {} ops).accepted, a.2 ∈ (run {} ops).processed := by
+  have := run_inv ops {} inv_init
+  exact ⟨this.accTxs, this.accProcessed⟩
+
+/-- **effects_at_most_once.** Over every history, each message id is accepted at most once, an
+accepted message is gone from the queue for good (ids are never reissued, C05), every success
+effect belongs to an accepted message, and there is at most one effect of each kind per message. -/
 theorem effects_at_most_once (ops : List Op) :
     ((run {} ops).accepted.map (·.1)).Nodup ∧
     (∀ a ∈ (run {} ops).accepted, a.1 ∉ (run {} ops).queue.map (·.id)) ∧
@@ -834,6 +2062,54 @@ theorem accepted_message_leaves_queue (s : St) (id : Nat) (w w' : Winner)
       exact this (List.mem_map.2 ⟨x, hx, by simpa using hxid⟩)
     simp only [attest, hnone]
 
+
+/-- **vote_step_is_an_attest_step.** The Go vote under ANY proof hash followed by the router is the
+router applied to that vote's winner — so every history theorem above (they quantify over
+`Op.attest id w` with an arbitrary winner `w`) covers end-blocker steps with real sha256 evidence,
+collisions or not. -/
+theorem vote_step_is_an_attest_step (hp : ProofV → Nat) (s : St) (id : Nat) (snap : Libcons.Snapshot)
+    (evs : List EvidenceV) :
+    attestEvH hp s id snap evs = attest s id (winnerOfH hp snap evs) ∧
+    step s (.attest id (winnerOfH hp snap evs)) = (attestEvH hp s id snap evs).1 ∧
+    step s (.attestEv id snap evs) = (attestEvH (idealHash evs) s id snap evs).1 :=
+  ⟨rfl, rfl, rfl⟩
+
+/-- **keeper_state_changed_at_most_once_per_message.** "At most once" on the EXECUTABLE state: in
+any history, attestation attempts for one message id change the keeper state read by the attesters
+(or either log) at no more than one point. -/
+theorem keeper_state_changed_at_most_once_per_message (ops pre1 post1 pre2 post2 : List Op)
+    (op1 op2 : Op) (id : Nat) (w1 w2 : Winner)
+    (h1 : ops = pre1 ++ op1 :: post1) (h2 : ops = pre2 ++ op2 :: post2)
+    (t1 : op1.attempt = some (id, w1)) (t2 : op2.attempt = some (id, w2))
+    (c1 : (step (run {} pre1) op1).chain ≠ (run {} pre1).chain ∨
+          (step (run {} pre1) op1).effects ≠ (run {} pre1).effects ∨
+          (step (run {} pre1) op1).accepted ≠ (run {} pre1).accepted)
+    (c2 : (step (run {} pre2) op2).chain ≠ (run {} pre2).chain ∨
+          (step (run {} pre2) op2).effects ≠ (run {} pre2).effects ∨
+          (step (run {} pre2) op2).accepted ≠ (run {} pre2).accepted) :
+    pre1 = pre2 ∧ op1 = op2 ∧ post1 = post2 := by
+  have acc : ∀ (s : St) (op : Op) (w : Winner), op.attempt = some (id, w) →
+      ((step s op).chain ≠ s.chain ∨ (step s op).effects ≠ s.effects ∨ (step s op).accepted ≠ s.accepted) →
+      ∃ p, Accepts s op id p := by
+    intro s op w t c
+    rcases state_changes_only_by_accepting_attestation s op with ⟨e1, e2, e3⟩ | ⟨id', p, ha⟩
+    · rcases c with c | c | c
+      · rcases e3 with e3 | ⟨ch, e3⟩
+        · exact absurd e3 c
+        · rw [e3] at t; cases t
+      · exact absurd e1 c
+      · exact absurd e2 c
+    · have := ha.1
+      rw [t] at this
+      simp only [Option.some.injEq, Prod.mk.injEq] at this
+      obtain ⟨rfl, -⟩ := this
+      exact ⟨p, ha⟩
+  obtain ⟨p1, a1⟩ := acc _ op1 w1 t1 c1
+  obtain ⟨p2, a2⟩ := acc _ op2 w2 t2 c2
+  have := message_accepted_at_most_once ops pre1 post1 pre2 post2 op1 op2 id p1 p2 h1 h2 a1 a2
+  exact ⟨this.1, this.2.1, this.2.2.1⟩
+
+
 /-- **early_evidence_is_processed.** Evidence for a fee-paying message whose fees were never set
 (no gas estimate elected yet) is processed like any other evidence: verification compares the call
 data against the encoding with the DEFAULT fees (`feesOrDefault`, the values that were signed) and
@@ -845,7 +2121,8 @@ theorem early_evidence_is_processed (m : QMsg) (f : SLCFields) (data : Bytes)
     (verifyAgainstTx m data = .ok ↔
       ∃ i, 1 ≤ i ∧ i ≤ m.sigs.length ∧
         data = calldata selSubmitLogicCallD SLC.deliveredTys
-          [callV (f.contract, f.payload), feeV defaultFees f.sender, .word f.id, .word f.deadline, .word f.relayer]
+          [callV (f.contract, f.payload), feeV defaultFees f.sender, .word (castI64 m.id), .word f.deadline,
+           .word f.relayer]
           (consensusV m.valset (m.sigs.take i))) := by
   rw [verify_ok_iff_exact]
   unfold ExactFor
@@ -890,12 +2167,14 @@ theorem committed_tx_never_accepted_again (s : St) (id : Nat) (p q : TxProof) (h
   have h2 := run_processed_mono ops' _ _ h1
   exact processed_tx_rejected _ id' q (by rw [hq]; exact h2)
 
-/-- **used_tx_never_wins_again.** … and in terms of the vote: if evidence for a later message is
-accepted, the winning proof's transaction is none of the transactions accepted before. -/
-theorem used_tx_never_wins_again (ops ops' : List Op) (id : Nat) (snap : Libcons.Snapshot)
-    (evs : List EvidenceV) (h : (attestEv (run (run {} ops) ops') id snap evs).2 = .ok) :
-    ∃ p, winnerOf snap evs = .tx p ∧ p.hash ∉ (run {} ops).accepted.map (·.2) := by
-  unfold attestEv at h
+/-- **used_tx_never_wins_again.** … and in terms of the vote (any proof hash, collisions or not): if
+evidence for a later message is accepted, the winning proof's transaction is none of the
+transactions accepted before. -/
+theorem used_tx_never_wins_again (hp : ProofV → Nat) (ops ops' : List Op) (id : Nat)
+    (snap : Libcons.Snapshot) (evs : List EvidenceV)
+    (h : (attestEvH hp (run (run {} ops) ops') id snap evs).2 = .ok) :
+    ∃ p, winnerOfH hp snap evs = .tx p ∧ p.hash ∉ (run {} ops).accepted.map (·.2) := by
+  unfold attestEvH at h
   obtain ⟨p, hw, -⟩ := accept_implies_success_receipt _ id _ h
   refine ⟨p, hw, ?_⟩
   intro hm
@@ -903,6 +2182,8 @@ theorem used_tx_never_wins_again (ops ops' : List Op) (id : Nat) (snap : Libcons
   obtain ⟨a, ha, e⟩ := hm
   rw [hw] at h
   exact used_tx_never_accepted_again ops ops' a ha id p e.symm h
+
+/-! ### 7. compass upload (not an ABI call) -/
 
 /-- **up_accept_iff_bytecode_then_ctor.** C07 first sentence for a compass upload: the call data is
 accepted iff it EQUALS the bytecode followed by the constructor input — the whole of it. -/
@@ -933,9 +2214,7 @@ theorem up_trailing_bytes_rejected (m : QMsg) (bc ctor : Bytes) (cid : Nat)
     simp only [List.length_append] at hl
     have : extra.length = 0 := by omega
     exact he (List.eq_nil_of_length_eq_zero this)
-  cases h : verifyAgainstTx m (bc ++ ctor ++ extra) with
-  | ok => exact absurd h hne
-  | notVerified => rfl
+  exact (verify_not_ok_iff m _).1 hne
 
 /-- **up_bare_bytecode_nothing_follows.** The boundary shape: a message without constructor input
 is delivered by the bare bytecode only. -/
@@ -958,118 +2237,242 @@ theorem up_proper_prefix_rejected (m : QMsg) (bc ctor : Bytes) (cid : Nat)
     simp only [List.length_append] at hl
     have : rest.length = 0 := by omega
     exact hr (List.eq_nil_of_length_eq_zero this)
-  cases h : verifyAgainstTx m data with
-  | ok => exact absurd h hne
-  | notVerified => rfl
+  exact (verify_not_ok_iff m _).1 hne
 
 /-- **up_other_calldata_no_effects.** Router level: for a stored compass upload, evidence whose
 winning transaction carries anything but `bytecode ++ constructor input` is not accepted, hence
-(`effects_only_on_accept`) no contract is recorded or activated, no snapshot goes live and no
-handover is scheduled. -/
+no contract is recorded or activated, no snapshot goes live and no handover is scheduled. -/
 theorem up_other_calldata_no_effects (s : St) (id : Nat) (m : QMsg) (bc ctor : Bytes) (cid : Nat)
     (hm : findMsg s.queue id = some m) (ha : m.action = .up bc ctor cid) (p : TxProof)
     (hd : p.data ≠ bc ++ ctor) :
     (attest s id (.tx p)).2 ≠ .ok ∧ (attest s id (.tx p)).1.effects = s.effects ∧
     (attest s id (.tx p)).1.chain = s.chain := by
-  have hne : (attest s id (.tx p)).2 ≠ .ok := by
-    intro h
-    obtain ⟨m', p', hm', hw, hex⟩ := accept_implies_exact_calldata s id _ h
-    rw [hm] at hm'
-    injection hm' with hm'
-    subst hm'
-    injection hw with hw
-    subst hw
-    exact hd ((up_accept_iff_bytecode_then_ctor m bc ctor cid ha _).1 (exact_verify_ok m _ hex))
-  have := effects_only_on_accept s id (.tx p) hne
-  exact ⟨hne, this.1, this.2.1⟩
+  have hv : verifyAgainstTx m p.data = .notVerified :=
+    (verify_not_ok_iff m _).1 fun h => hd ((up_accept_iff_bytecode_then_ctor m bc ctor cid ha _).1 h)
+  have := non_matching_tx_no_effects s id m hm p (.inr (.inr hv))
+  exact ⟨this.1, this.2.1, this.2.2.1⟩
 
-/-! ## non-vacuity -/
+/-! ### 8. the range assumption holds along histories; corruptions over histories -/
+
+/-- **run_queue_wf.** Companion of every theorem with a `QMsg.Wf` hypothesis: after any history
+whose inputs are in the ranges of their Go types and which is shorter than 2^64 ops (the id counter
+is a `uint64`), every stored message is in range. -/
+theorem run_queue_wf (ops : List Op) (hops : OpsWf ops) (hn : ops.length < U64) :
+    ∀ m ∈ (run {} ops).queue, m.Wf :=
+  run_queue_wf_aux ops {} (fun m hm => by cases hm) hops (by show 0 + ops.length < U64; omega)
+
+/-- **history_non_matching_tx_no_effects.** C07, second clause, with its quantifier ("all single- and
+multi-field corruptions of otherwise valid call data, all receipt statuses"): after ANY well-formed
+history, for the message `m` stored under `id`, a transaction proof
+* whose call data packs (same method, any well-typed consensus) an argument list differing from the
+  message's in at least one value, or
+* whose call data starts with other selector bytes, or
+* whose call data is a proper extension or a proper prefix of call data that verifies, or
+* whose receipt is missing or reports anything but success
+is not accepted, and effect log, keeper state and acceptance log stay exactly as they were. -/
+theorem history_non_matching_tx_no_effects (ops : List Op) (hops : OpsWf ops) (hn : ops.length < U64)
+    (id : Nat) (m : QMsg) (hm : findMsg (run {} ops).queue id = some m) (p : TxProof)
+    (hc : (∃ d c' vals', m.action.delivered m.id = some d ∧
+              hasTypeArgs (consensusTy :: d.2.1) (c' :: vals') = true ∧ vals' ≠ d.2.2 ∧
+              p.data = calldata d.1 d.2.1 vals' c') ∨
+          (∃ d, m.action.delivered m.id = some d ∧ p.data.take 4 ≠ d.1) ∨
+          (∃ good extra, extra ≠ [] ∧ verifyAgainstTx m good = .ok ∧
+              (p.data = good ++ extra ∨ good = p.data ++ extra)) ∨
+          p.receipt ≠ some 1) :
+    (attest (run {} ops) id (.tx p)).2 ≠ .ok ∧
+    (attest (run {} ops) id (.tx p)).1.effects = (run {} ops).effects ∧
+    (attest (run {} ops) id (.tx p)).1.chain = (run {} ops).chain ∧
+    (attest (run {} ops) id (.tx p)).1.accepted = (run {} ops).accepted := by
+  have hw : m.Wf := run_queue_wf ops hops hn m (findMsg_some hm).1
+  apply non_matching_tx_no_effects _ id m hm p
+  rcases hc with ⟨d, c', vals', hd, ht, hne, hp⟩ | ⟨d, hd, hsel⟩ | ⟨good, extra, he, hg, hp | hp⟩ | hr
+  · exact .inr (.inr (by rw [hp]; exact corrupted_field_rejected m hw d hd c' vals' ht hne))
+  · exact .inr (.inr (other_selector_rejected m p.data d hd hsel))
+  · exact .inr (.inr (by rw [hp]; exact trailing_bytes_rejected m hw good extra he hg))
+  · exact .inr (.inr (truncated_calldata_rejected m hw p.data extra he (by rw [← hp]; exact hg)))
+  · exact .inl hr
+
+
+/-! ## non-vacuity — every example goes through `run` from the initial state `{}` -/
 
 def exVs : GoValset := { validators := [[48, 120, 97, 97]], powers := [4294967296], valsetId := 3 }
 def exSigs : List SignData := [{ ext := [48, 120, 97, 97], v := 27, r := 11, s := 12 }, { ext := [48, 120, 98, 98], v := 28, r := 13, s := 14 }]
+/-- the action's own `id` field is stale on purpose (9): the queue hands out 1 and 2 -/
 def exF : SLCFields :=
   { contract := 0x11, payload := [1, 2, 3], fees := some { relayer := 5, community := 6, security := 7 },
     sender := 0x22, id := 9, turnstone := 5, deadline := 1700000000, relayer := 0x33 }
-def exM : QMsg := { id := 9, action := .slc exF, valset := exVs, sigs := exSigs }
-/-- call data a relayer built when only the first signature was known -/
-def exData : Bytes :=
+/-- two logic calls are queued: ids 1 and 2 from the shared counter -/
+def exOps : List Op := [.enqueue (.slc exF) exVs exSigs, .enqueue (.slc exF) exVs exSigs]
+def exS : St := run {} exOps
+/-- call data a relayer built for the message with id `n` when only the first `k` signatures were known -/
+def exDataFor (n k : Nat) (fees : Fees) : Bytes :=
   calldata selSubmitLogicCallD SLC.deliveredTys
-    [callV (0x11, [1, 2, 3]), feeV { relayer := 5, community := 6, security := 7 } 0x22, .word 9,
-     .word 1700000000, .word 0x33] (consensusV exVs (exSigs.take 1))
-def exS : St := { queue := [exM], nextId := 9 }
+    [callV (0x11, [1, 2, 3]), feeV fees 0x22, .word n, .word 1700000000, .word 0x33]
+    (consensusV exVs (exSigs.take k))
+def exFees : Fees := { relayer := 5, community := 6, security := 7 }
+def exData : Bytes := exDataFor 1 1 exFees
 def exP : TxProof := { hash := 77, data := exData, receipt := some 1, deployLog := false }
 
+example : OpsWf exOps ∧ exOps.length < U64 := by
+  refine ⟨?_, by decide⟩
+  intro op hop
+  simp only [exOps, List.mem_cons, List.not_mem_nil, or_false] at hop
+  rcases hop with rfl | rfl <;>
+    exact ⟨by decide, ⟨by decide, by decide, by decide, by decide, by decide⟩⟩
+
 set_option maxRecDepth 100000 in
-example : (attest exS 9 (.tx exP)).2 = .ok := by decide
--- early evidence: the same message before its fees were set is attested against the default fees
-def exMNil : QMsg := { exM with action := .slc { exF with fees := none } }
-def exDataNil : Bytes :=
-  calldata selSubmitLogicCallD SLC.deliveredTys
-    [callV (0x11, [1, 2, 3]), feeV defaultFees 0x22, .word 9, .word 1700000000, .word 0x33]
-    (consensusV exVs (exSigs.take 2))
+example : exS.queue.map (·.id) = [1, 2] := by decide
+-- accepted for message 1 (earlier signature prefix): logged under the QUEUE id, transaction spent, message gone
 set_option maxRecDepth 100000 in
-example : (attest { queue := [exMNil], nextId := 9 } 9 (.tx { exP with data := exDataNil })).2 = .ok := by decide
+example : Accepts exS (.attest 1 (.tx exP)) 1 exP := ⟨rfl, by decide⟩
 set_option maxRecDepth 100000 in
-example : (attest { queue := [exMNil], nextId := 9 } 9 (.tx exP)).2 = .notVerified := by decide
+example : (run {} (exOps ++ [.attest 1 (.tx exP)])).accepted = [(1, 77)] ∧
+    (run {} (exOps ++ [.attest 1 (.tx exP)])).processed = [77] ∧
+    (run {} (exOps ++ [.attest 1 (.tx exP)])).queue.map (·.id) = [2] := by decide
+-- the stale `id` field of the action (9) is NOT what is compared: call data packing 9 is refused,
+-- and so is the call data of message 1 presented for message 2
 set_option maxRecDepth 100000 in
-example : (attest exS 9 (.tx { exP with receipt := some 0 })).2 = .txFailed := by decide
+example : (attest exS 1 (.tx { exP with data := exDataFor 9 1 exFees })).2 = .notVerified := by decide
 set_option maxRecDepth 100000 in
-example : (attest exS 9 (.tx { exP with data := exData ++ [0] })).2 = .notVerified := by decide
+example : (attest exS 2 (.tx exP)).2 = .notVerified := by decide
+-- single-field corruptions, failed / missing receipt, trailing byte, truncated, other selector
 set_option maxRecDepth 100000 in
-example : (attest (attest exS 9 (.tx exP)).1 9 (.tx exP)).2 = .unknownMsg := by decide
-set_option maxRecDepth 100000 in
-example : (run {} [.enqueue (.slc { exF with id := 1 }) exVs exSigs, .enqueue (.slc { exF with id := 2 }) exVs exSigs]).queue.map (·.id) = [1, 2] := by
+example : (attest exS 1 (.tx { exP with data := exDataFor 1 1 { exFees with security := 8 } })).2 = .notVerified := by
   decide
+set_option maxRecDepth 100000 in
+example : (attest exS 1 (.tx { exP with receipt := some 0 })).2 = .txFailed ∧
+    (run {} (exOps ++ [.attest 1 (.tx { exP with receipt := some 0 })])).effects = [] ∧
+    (run {} (exOps ++ [.attest 1 (.tx { exP with receipt := some 0 })])).accepted = [] := by decide
+set_option maxRecDepth 100000 in
+example : (attest exS 1 (.tx { exP with receipt := none })).2 = .receiptErr := by decide
+set_option maxRecDepth 100000 in
+example : (attest exS 1 (.tx { exP with data := exData ++ [0] })).2 = .notVerified := by decide
+set_option maxRecDepth 100000 in
+example : (attest exS 1 (.tx { exP with data := exData.dropLast })).2 = .notVerified := by decide
+set_option maxRecDepth 100000 in
+example : (attest exS 1 (.tx { exP with data := selDeployContractD ++ exData.drop 4 })).2 = .notVerified := by
+  decide
+-- re-submission: the used transaction for message 2 (with message 2's call data), the same message again
+set_option maxRecDepth 100000 in
+example : (attest (run {} (exOps ++ [.attest 1 (.tx exP)])) 2 (.tx { exP with data := exDataFor 2 2 exFees })).2
+    = .alreadyProcessed := by decide
+set_option maxRecDepth 100000 in
+example : (attest exS 2 (.tx { exP with data := exDataFor 2 2 exFees })).2 = .ok := by decide
+set_option maxRecDepth 100000 in
+example : (attest (run {} (exOps ++ [.attest 1 (.tx exP)])) 1 (.tx exP)).2 = .unknownMsg := by decide
+-- early evidence: the same message before its fees were set is attested against the default fees
+def exOpsNil : List Op := [.enqueue (.slc { exF with fees := none }) exVs exSigs]
+set_option maxRecDepth 100000 in
+example : (attest (run {} exOpsNil) 1 (.tx { exP with data := exDataFor 1 2 defaultFees })).2 = .ok := by decide
+set_option maxRecDepth 100000 in
+example : (attest (run {} exOpsNil) 1 (.tx exP)).2 = .notVerified := by decide
+
+-- update-valset through the environment op: snapshot 7 exists, the message names snapshot 7 (its
+-- `UVFields.valsetId` is stale: 3); accepted call data carries 7 and snapshot 7 goes live
+def exUvF : UVFields :=
+  { validators := [0xaa], powers := [5], valsetId := 3, turnstone := 1, relayer := 0x33, estimate := 21000 }
+def exUvOps : List Op :=
+  [.setChain { snapshots := [7], currentSnapshot := 7 }, .enqueue (.uv exUvF 7) exVs exSigs]
+def exUvData (vid : Nat) : Bytes :=
+  calldata selUpdateValsetD UV.deliveredTys
+    [.seq [words [0xaa], words [5], .word vid], .word 0x33, .word 21000] (consensusV exVs (exSigs.take 2))
+def exUvP (vid : Nat) : TxProof := { hash := 5, data := exUvData vid, receipt := some 1, deployLog := false }
+set_option maxRecDepth 100000 in
+example : (run {} (exUvOps ++ [.attest 1 (.tx (exUvP 7))])).effects = [.snapshotLive 1 7] ∧
+    (run {} (exUvOps ++ [.attest 1 (.tx (exUvP 7))])).chain.hasSnapshot = true ∧
+    (run {} exUvOps).chain.hasSnapshot = false := by decide
+set_option maxRecDepth 100000 in
+example : (attest (run {} exUvOps) 1 (.tx (exUvP 3))).2 = .notVerified := by decide
+
+-- signatures collected under addresses that are NOT in the selected valset: the all-zero consensus
+-- (no signature at all) is accepted — `signatureless_calldata_accepted` is not vacuous
+def exStrangers : List SignData := [{ ext := [48, 120, 99, 99], v := 27, r := 1, s := 2 }]
+def exStrOps : List Op := [.enqueue (.slc exF) exVs exStrangers]
+def exStrData : Bytes :=
+  calldata selSubmitLogicCallD SLC.deliveredTys
+    [callV (0x11, [1, 2, 3]), feeV exFees 0x22, .word 1, .word 1700000000, .word 0x33] (consensusV exVs [])
+set_option maxRecDepth 100000 in
+example : (attest (run {} exStrOps) 1 (.tx { exP with data := exStrData })).2 = .ok := by decide
+
+set_option maxRecDepth 100000 in
+/-- **accepted_calldata_may_carry_no_signature.** Negation of the full-strength reading kept in the
+comment before `signatureless_calldata_accepted`, by a concrete witness reachable from the initial
+state: accepted call data none of whose slots holds a collected signature. -/
+theorem accepted_calldata_may_carry_no_signature :
+    ∃ (ops : List Op) (p : TxProof), (attest (run {} ops) 1 (.tx p)).2 = .ok ∧
+      ∀ m ∈ (run {} ops).queue, isUp m.action = false ∧ ¬ ∃ s ∈ m.sigs, s.ext ∈ m.valset.validators :=
+  ⟨exStrOps, { exP with data := exStrData }, by decide, by decide⟩
 
 -- four validators with equal shares: 1 success + 3 failed receipts for the same transaction
 def exSnap : Libcons.Snapshot := { vals := [(1, 10), (2, 10), (3, 10), (4, 10)], total := 40 }
 def exFail : TxProof := { exP with receipt := some 0 }
 set_option maxRecDepth 100000 in
-example : (attestEv exS 9 exSnap [(1, .tx exP), (2, .tx exFail), (3, .tx exFail), (4, .tx exFail)]).2 = .txFailed := by
+example : (run {} (exOps ++ [.attestEv 1 exSnap [(1, .tx exP), (2, .tx exFail), (3, .tx exFail), (4, .tx exFail)]])).accepted = [] ∧
+    (attestEv exS 1 exSnap [(1, .tx exP), (2, .tx exFail), (3, .tx exFail), (4, .tx exFail)]).2 = .txFailed := by
   decide
 set_option maxRecDepth 100000 in
-example : (attestEv exS 9 exSnap [(1, .tx exP), (2, .tx exP), (3, .tx exFail), (4, .tx exFail)]).2 = .noop := by
+example : (attestEv exS 1 exSnap [(1, .tx exP), (2, .tx exP), (3, .tx exFail), (4, .tx exFail)]).2 = .noop := by
   decide
 set_option maxRecDepth 100000 in
-example : (attestEv exS 9 exSnap [(4, .tx exFail), (1, .tx exP), (2, .tx exP), (3, .tx exP)]).2 = .ok := by
+example : (run {} (exOps ++ [.attestEv 1 exSnap [(4, .tx exFail), (1, .tx exP), (2, .tx exP), (3, .tx exP)]])).accepted
+    = [(1, 77)] := by
   decide
 set_option maxRecDepth 100000 in
-example : (attestEv exS 9 exSnap [(1, .tx exP), (2, .tx { exP with variant := 1 }), (3, .tx exP)]).2 = .noop := by
+example : (attestEv exS 1 exSnap [(1, .tx exP), (2, .tx { exP with variant := 1 }), (3, .tx exP)]).2 = .noop := by
   decide
 
--- the same transaction (hash 77) reported in the EIP-4844 network form (enc 1) wins for message 9 …
+set_option maxRecDepth 100000 in
+/-- **noColl_hypothesis_needed.** The sha256 ASSUMPTION of the vote theorems cannot be dropped: with a
+proof hash that collides on the submitted proofs (here: constant), the Go algorithm merges a
+success report listed first with three failed-receipt reports into one group and accepts — although
+the evidence byte-identical to the winner holds only 1/4 of the shares. -/
+theorem noColl_hypothesis_needed :
+    (attestEvH (fun _ => 0) exS 1 exSnap [(1, .tx exP), (2, .tx exFail), (3, .tx exFail), (4, .tx exFail)]).2 = .ok ∧
+    winnerOfH (fun _ => 0) exSnap [(1, .tx exP), (2, .tx exFail), (3, .tx exFail), (4, .tx exFail)] = .tx exP ∧
+    (Libcons.tally exSnap (groupFor [(1, .tx exP), (2, .tx exFail), (3, .tx exFail), (4, .tx exFail)] (.tx exP))).consensus
+      = false := by
+  decide
+
+-- the same transaction (hash 77) reported in the EIP-4844 network form (enc 1) wins for message 1 …
 def exPNet : TxProof := { exP with enc := 1 }
-def exM2 : QMsg := { exM with id := 10, action := .slc { exF with id := 10 } }
-def exS2 : St := { queue := [exM, exM2], nextId := 10 }
+def exOpsNet : List Op := exOps ++ [.attestEv 1 exSnap [(1, .tx exPNet), (2, .tx exPNet), (3, .tx exPNet)]]
 set_option maxRecDepth 100000 in
-example : (attestEv exS2 9 exSnap [(1, .tx exPNet), (2, .tx exPNet), (3, .tx exPNet)]).2 = .ok := by decide
--- … and is spent: presented again in the canonical encoding (or any other) it is refused
+example : (run {} exOpsNet).accepted = [(1, 77)] := by decide
+-- … and is spent: presented again in the canonical encoding (or any other) for message 2 it is refused
+def exP2 : TxProof := { exP with data := exDataFor 2 2 exFees }
 set_option maxRecDepth 100000 in
-example : (attestEv (attestEv exS2 9 exSnap [(1, .tx exPNet), (2, .tx exPNet), (3, .tx exPNet)]).1 10 exSnap
-    [(1, .tx exP), (2, .tx exP), (3, .tx exP)]).2 = .alreadyProcessed := by decide
+example : (attestEv (run {} exOpsNet) 2 exSnap [(1, .tx exP2), (2, .tx exP2), (3, .tx exP2)]).2 = .alreadyProcessed := by
+  decide
 set_option maxRecDepth 100000 in
-example : (attestEv (attestEv exS2 9 exSnap [(1, .tx exPNet), (2, .tx exPNet), (3, .tx exPNet)]).1 10 exSnap
-    [(1, .tx { exP with enc := 2 }), (2, .tx { exP with enc := 2 }), (3, .tx { exP with enc := 2 })]).2
+example : (attestEv (run {} exOpsNet) 2 exSnap
+    [(1, .tx { exP2 with enc := 2 }), (2, .tx { exP2 with enc := 2 }), (3, .tx { exP2 with enc := 2 })]).2
       = .alreadyProcessed := by decide
 -- validators that report the same transaction in different encodings do not form one group
 set_option maxRecDepth 100000 in
-example : (attestEv exS2 9 exSnap [(1, .tx exPNet), (2, .tx exPNet), (3, .tx exP), (4, .tx exP)]).2 = .noop := by
+example : (attestEv exS 1 exSnap [(1, .tx exPNet), (2, .tx exPNet), (3, .tx exP), (4, .tx exP)]).2 = .noop := by
   decide
 
--- compass upload WITHOUT constructor input: only the bare bytecode is its encoding
-def exUp : QMsg := { id := 4, action := .up [0x60, 0x02, 0x11] [] 2, valset := exVs, sigs := [] }
-def exUpS : St :=
-  { queue := [exUp], nextId := 4,
-    chain := { deployments := [(2, .inFlight)], activeContract := 1, hasSnapshot := true, snapshots := [1],
-               currentSnapshot := 1 } }
-example : (attest exUpS 4 (.tx { exP with data := [0x60, 0x02, 0x11] })).2 = .ok := by decide
-example : (attest exUpS 4 (.tx { exP with data := [0x60, 0x02, 0x11, 0xaa, 0xbb] })).2 = .notVerified := by decide
-example : (attest exUpS 4 (.tx { exP with data := [0x60, 0x02] })).2 = .notVerified := by decide
--- … and WITH constructor input the bare bytecode is not
-def exUpC : QMsg := { exUp with action := .up [0x60, 0x02, 0x11] [0xaa, 0xbb] 2 }
-example : (attest { exUpS with queue := [exUpC] } 4 (.tx { exP with data := [0x60, 0x02, 0x11] })).2 = .notVerified := by
+-- compass upload WITHOUT constructor input, reached through the environment (deployment 2 in flight,
+-- chain already has a live snapshot): only the bare bytecode is its encoding
+def exUpOps (ctor : Bytes) : List Op :=
+  [.setChain { deployments := [(2, .inFlight)], activeContract := 1, hasSnapshot := true, snapshots := [1],
+               currentSnapshot := 1 },
+   .enqueue (.up [0x60, 0x02, 0x11] ctor 2) exVs []]
+example : (run {} (exUpOps [] ++ [.attest 1 (.tx { exP with data := [0x60, 0x02, 0x11] })])).effects
+    = [.handoverScheduled 1 2, .deploymentRecorded 1 2] := by decide
+example : (attest (run {} (exUpOps [])) 1 (.tx { exP with data := [0x60, 0x02, 0x11, 0xaa, 0xbb] })).2 = .notVerified := by
   decide
-example : (attest { exUpS with queue := [exUpC] } 4 (.tx { exP with data := [0x60, 0x02, 0x11, 0xaa, 0xbb] })).2 = .ok := by
+example : (attest (run {} (exUpOps [])) 1 (.tx { exP with data := [0x60, 0x02] })).2 = .notVerified := by decide
+-- … and WITH constructor input the bare bytecode is not
+example : (attest (run {} (exUpOps [0xaa, 0xbb])) 1 (.tx { exP with data := [0x60, 0x02, 0x11] })).2 = .notVerified := by
+  decide
+example : (attest (run {} (exUpOps [0xaa, 0xbb])) 1 (.tx { exP with data := [0x60, 0x02, 0x11, 0xaa, 0xbb] })).2 = .ok := by
+  decide
+-- first deployment on a chain without live snapshot: current snapshot live, contract active
+example : (run {} [.setChain { deployments := [(2, .inFlight)], snapshots := [4], currentSnapshot := 4 },
+                   .enqueue (.up [0x60] [] 2) exVs [],
+                   .attest 1 (.tx { exP with data := [0x60] })]).chain
+    = { deployments := [], activeContract := 2, hasSnapshot := true, snapshots := [4], currentSnapshot := 4 } := by
   decide
 
 end Paloma.Attest
